@@ -58,7 +58,10 @@ fn fam_name(f: Family) -> String {
 fn is_flowspec(f: Family) -> bool {
     matches!(
         f,
-        Family::IPV4_FLOWSPEC | Family::IPV6_FLOWSPEC | Family::IPV4_FLOWSPEC_VPN | Family::IPV6_FLOWSPEC_VPN
+        Family::IPV4_FLOWSPEC
+            | Family::IPV6_FLOWSPEC
+            | Family::IPV4_FLOWSPEC_VPN
+            | Family::IPV6_FLOWSPEC_VPN
     )
 }
 
@@ -167,7 +170,13 @@ fn attr_dbg(a: &Attribute) -> String {
     } else {
         "bin"
     };
-    trunc(format!("code={} flags={:#04x} {}={}", a.code(), a.flags(), kind, hex(&attr_bytes(a))))
+    trunc(format!(
+        "code={} flags={:#04x} {}={}",
+        a.code(),
+        a.flags(),
+        kind,
+        hex(&attr_bytes(a))
+    ))
 }
 
 // ------------------------------------------------------------------ wire building
@@ -231,9 +240,15 @@ fn gen_nh(fam: Family, r: &mut Rng) -> Nh {
     }
     let v6 = is_v6_family(fam) || r.chance(1, 4);
     if v6 {
-        let g = Ipv6Addr::from(0x2001_0db8_0000_0000_0000_0000_0000_0000u128 | (r.next_u64() as u128));
+        let g =
+            Ipv6Addr::from(0x2001_0db8_0000_0000_0000_0000_0000_0000u128 | (r.next_u64() as u128));
         if r.chance(1, 4) && !matches!(fam, Family::IPV4_VPN | Family::IPV6_VPN) {
-            Nh::V6Ll(g, Ipv6Addr::from(0xfe80_0000_0000_0000_0000_0000_0000_0000u128 | (r.next_u64() as u128 | 1)))
+            Nh::V6Ll(
+                g,
+                Ipv6Addr::from(
+                    0xfe80_0000_0000_0000_0000_0000_0000_0000u128 | (r.next_u64() as u128 | 1),
+                ),
+            )
         } else {
             Nh::V6(g)
         }
@@ -310,7 +325,11 @@ struct Decoded {
 fn decode_update(codec: &mut bgp::PeerCodec, buf: &[u8]) -> Result<Decoded, String> {
     match guard(|| codec.parse_message(buf)) {
         Err(p) => Err(format!("decoder panic {} {}", p.location, p.message)),
-        Ok(Err(n)) => Err(format!("notification {}/{}", n.notification_code(), n.notification_subcode())),
+        Ok(Err(n)) => Err(format!(
+            "notification {}/{}",
+            n.notification_code(),
+            n.notification_subcode()
+        )),
         Ok(Ok(bgp::ParsedMessage::Update(bgp::ParsedUpdate::Routes {
             reach,
             mp_reach,
@@ -337,7 +356,10 @@ fn decode_update(codec: &mut bgp::PeerCodec, buf: &[u8]) -> Result<Decoded, Stri
 fn base_wattrs(r: &mut Rng) -> Vec<WAttr> {
     vec![
         wa(Attribute::ORIGIN, vec![r.below(3) as u8]),
-        wa(Attribute::AS_PATH, as_path_bytes(&[(2, vec![65001, 65002 + r.below(4) as u32])])),
+        wa(
+            Attribute::AS_PATH,
+            as_path_bytes(&[(2, vec![65001, 65002 + r.below(4) as u32])]),
+        ),
     ]
 }
 
@@ -374,8 +396,24 @@ fn ga(code: u8, val: Vec<u8>, canon: bool, sub: &str) -> GenAttr {
 }
 
 const ATTR_KINDS: [&str; 18] = [
-    "origin", "as_path", "med", "local_pref", "atomic", "aggregator", "community", "originator", "cluster",
-    "extcom", "extcom_multi", "large", "aigp", "prefix_sid", "tunnel", "ls", "opaque", "as_path_long",
+    "origin",
+    "as_path",
+    "med",
+    "local_pref",
+    "atomic",
+    "aggregator",
+    "community",
+    "originator",
+    "cluster",
+    "extcom",
+    "extcom_multi",
+    "large",
+    "aigp",
+    "prefix_sid",
+    "tunnel",
+    "ls",
+    "opaque",
+    "as_path_long",
 ];
 
 fn gen_as_path(r: &mut Rng, long: bool) -> Vec<u8> {
@@ -406,14 +444,46 @@ fn gen_as_path(r: &mut Rng, long: bool) -> Vec<u8> {
 
 /// (type, subtype) pairs of extended communities worth distinguishing
 const EXTCOM_TYPES: [(u8, u8); 40] = [
-    (0x00, 0x02), (0x00, 0x03), (0x00, 0x05), (0x40, 0x04), (0x40, 0x02),
-    (0x01, 0x02), (0x01, 0x03), (0x41, 0x02), (0x02, 0x02), (0x02, 0x03),
-    (0x42, 0x02), (0x03, 0x0c), (0x03, 0x0b), (0x43, 0x00), (0x03, 0x0d),
-    (0x06, 0x00), (0x06, 0x01), (0x06, 0x02), (0x06, 0x03), (0x06, 0x04),
-    (0x0c, 0x00), (0x0c, 0x01), (0x4c, 0x00), (0x80, 0x06), (0x80, 0x07),
-    (0x80, 0x08), (0x80, 0x09), (0x80, 0x0a), (0x81, 0x08), (0x81, 0x01),
-    (0x82, 0x08), (0x82, 0x02), (0xc0, 0x06), (0xc0, 0x08), (0xc1, 0x08),
-    (0xc2, 0x08), (0x08, 0x00), (0x0a, 0x01), (0x90, 0x00), (0x07, 0x01),
+    (0x00, 0x02),
+    (0x00, 0x03),
+    (0x00, 0x05),
+    (0x40, 0x04),
+    (0x40, 0x02),
+    (0x01, 0x02),
+    (0x01, 0x03),
+    (0x41, 0x02),
+    (0x02, 0x02),
+    (0x02, 0x03),
+    (0x42, 0x02),
+    (0x03, 0x0c),
+    (0x03, 0x0b),
+    (0x43, 0x00),
+    (0x03, 0x0d),
+    (0x06, 0x00),
+    (0x06, 0x01),
+    (0x06, 0x02),
+    (0x06, 0x03),
+    (0x06, 0x04),
+    (0x0c, 0x00),
+    (0x0c, 0x01),
+    (0x4c, 0x00),
+    (0x80, 0x06),
+    (0x80, 0x07),
+    (0x80, 0x08),
+    (0x80, 0x09),
+    (0x80, 0x0a),
+    (0x81, 0x08),
+    (0x81, 0x01),
+    (0x82, 0x08),
+    (0x82, 0x02),
+    (0xc0, 0x06),
+    (0xc0, 0x08),
+    (0xc1, 0x08),
+    (0xc2, 0x08),
+    (0x08, 0x00),
+    (0x0a, 0x01),
+    (0x90, 0x00),
+    (0x07, 0x01),
 ];
 
 /// one extended community; returns (8 bytes, conformant)
@@ -496,7 +566,11 @@ fn gen_prefix_sid(r: &mut Rng) -> GenAttr {
             // RFC 9252 SRv6 L3 / L2 service TLV
             let l2 = k == 2;
             let with_struct = r.chance(3, 4);
-            let sid_flags = if r.chance(1, 6) { r.below(256) as u8 } else { 0 };
+            let sid_flags = if r.chance(1, 6) {
+                r.below(256) as u8
+            } else {
+                0
+            };
             let mut info = vec![0u8];
             info.extend_from_slice(&rnd_v6(r).octets());
             info.push(sid_flags);
@@ -599,7 +673,12 @@ fn gen_sr_policy_body(r: &mut Rng) -> Vec<u8> {
 
 fn gen_tunnel_encap(r: &mut Rng) -> GenAttr {
     match r.below(4) {
-        0 | 1 => ga(Attribute::TUNNEL_ENCAP, tlv16(15, &gen_sr_policy_body(r)), true, "sr-policy"),
+        0 | 1 => ga(
+            Attribute::TUNNEL_ENCAP,
+            tlv16(15, &gen_sr_policy_body(r)),
+            true,
+            "sr-policy",
+        ),
         2 => {
             // RFC 9012 VXLAN tunnel (type 8): encapsulation(1), color(4), egress endpoint(6), UDP port(8)
             let mut b = Vec::new();
@@ -618,7 +697,12 @@ fn gen_tunnel_encap(r: &mut Rng) -> GenAttr {
             if r.bool() {
                 b.extend_from_slice(&sub_tlv_te(8, &rnd_u16(r).to_be_bytes()));
             }
-            ga(Attribute::TUNNEL_ENCAP, tlv16(8, &b), true, "non-sr-policy-tunnel")
+            ga(
+                Attribute::TUNNEL_ENCAP,
+                tlv16(8, &b),
+                true,
+                "non-sr-policy-tunnel",
+            )
         }
         _ => {
             let t = *r.pick(&[1u16, 2, 7, 11, 13, 100]);
@@ -626,7 +710,12 @@ fn gen_tunnel_encap(r: &mut Rng) -> GenAttr {
             let mut ep = vec![0u8, 0, 0, 0, 0, 1];
             ep.extend_from_slice(&rnd_v4(r).octets());
             b.extend_from_slice(&sub_tlv_te(6, &ep));
-            ga(Attribute::TUNNEL_ENCAP, tlv16(t, &b), true, "non-sr-policy-tunnel")
+            ga(
+                Attribute::TUNNEL_ENCAP,
+                tlv16(t, &b),
+                true,
+                "non-sr-policy-tunnel",
+            )
         }
     }
 }
@@ -635,8 +724,8 @@ fn gen_tunnel_encap(r: &mut Rng) -> GenAttr {
 fn gen_ls_attr(r: &mut Rng) -> GenAttr {
     let nz32 = |r: &mut Rng| r.next_u32() | 1;
     let kinds: [u16; 27] = [
-        1024, 1025, 1026, 1027, 1028, 1029, 1030, 1031, 1035, 1088, 1089, 1090, 1091, 1092, 1095, 1096, 1097,
-        1098, 1099, 1101, 1102, 1103, 1114, 1115, 1116, 1152, 1158,
+        1024, 1025, 1026, 1027, 1028, 1029, 1030, 1031, 1035, 1088, 1089, 1090, 1091, 1092, 1095,
+        1096, 1097, 1098, 1099, 1101, 1102, 1103, 1114, 1115, 1116, 1152, 1158,
     ];
     let t = *r.pick(&kinds);
     let (v, canon): (Vec<u8>, bool) = match t {
@@ -650,7 +739,13 @@ fn gen_ls_attr(r: &mut Rng) -> GenAttr {
         1029 | 1031 => (rnd_v6(r).octets().to_vec(), true),
         1035 => (vec![r.below(2) as u8, 128], true),
         1088 | 1092 => (nz32(r).to_be_bytes().to_vec(), true),
-        1089 | 1090 => ((1_000_000.0f32 * (1 + r.below(100)) as f32).to_bits().to_be_bytes().to_vec(), true),
+        1089 | 1090 => (
+            (1_000_000.0f32 * (1 + r.below(100)) as f32)
+                .to_bits()
+                .to_be_bytes()
+                .to_vec(),
+            true,
+        ),
         1091 => {
             let mut v = Vec::new();
             for i in 0..8 {
@@ -661,7 +756,10 @@ fn gen_ls_attr(r: &mut Rng) -> GenAttr {
         1095 => match r.below(3) {
             0 => (vec![r.range(1, 63) as u8], true),
             1 => ((r.range(256, 65535) as u16).to_be_bytes().to_vec(), true),
-            _ => ((r.range(65536, 0xff_ffff) as u32).to_be_bytes()[1..].to_vec(), true),
+            _ => (
+                (r.range(65536, 0xff_ffff) as u32).to_be_bytes()[1..].to_vec(),
+                true,
+            ),
         },
         1096 => {
             let mut v = Vec::new();
@@ -692,7 +790,19 @@ fn gen_ls_attr(r: &mut Rng) -> GenAttr {
         1115 => {
             let d = r.range(1, 0xff_fff0) as u32;
             let e = d + 5;
-            (vec![0, (d >> 16) as u8, (d >> 8) as u8, d as u8, 0, (e >> 16) as u8, (e >> 8) as u8, e as u8], true)
+            (
+                vec![
+                    0,
+                    (d >> 16) as u8,
+                    (d >> 8) as u8,
+                    d as u8,
+                    0,
+                    (e >> 16) as u8,
+                    (e >> 8) as u8,
+                    e as u8,
+                ],
+                true,
+            )
         }
         1152 => (vec![(r.range(1, 15) as u8) << 4], true),
         1158 => {
@@ -710,8 +820,18 @@ fn gen_attr(kind: &str, r: &mut Rng) -> Vec<GenAttr> {
         "origin" => vec![ga(Attribute::ORIGIN, vec![r.below(3) as u8], true, "")],
         "as_path" => vec![ga(Attribute::AS_PATH, gen_as_path(r, false), true, "")],
         "as_path_long" => vec![ga(Attribute::AS_PATH, gen_as_path(r, true), true, "")],
-        "med" => vec![ga(Attribute::MULTI_EXIT_DESC, rnd_u32(r).to_be_bytes().to_vec(), true, "")],
-        "local_pref" => vec![ga(Attribute::LOCAL_PREF, rnd_u32(r).to_be_bytes().to_vec(), true, "")],
+        "med" => vec![ga(
+            Attribute::MULTI_EXIT_DESC,
+            rnd_u32(r).to_be_bytes().to_vec(),
+            true,
+            "",
+        )],
+        "local_pref" => vec![ga(
+            Attribute::LOCAL_PREF,
+            rnd_u32(r).to_be_bytes().to_vec(),
+            true,
+            "",
+        )],
         "atomic" => vec![ga(Attribute::ATOMIC_AGGREGATE, vec![], true, "")],
         "aggregator" => {
             let mut v = Vec::new();
@@ -732,7 +852,12 @@ fn gen_attr(kind: &str, r: &mut Rng) -> Vec<GenAttr> {
             }
             vec![ga(Attribute::COMMUNITY, v, true, "")]
         }
-        "originator" => vec![ga(Attribute::ORIGINATOR_ID, rnd_u32(r).to_be_bytes().to_vec(), true, "")],
+        "originator" => vec![ga(
+            Attribute::ORIGINATOR_ID,
+            rnd_u32(r).to_be_bytes().to_vec(),
+            true,
+            "",
+        )],
         "cluster" => {
             let mut v = Vec::new();
             for _ in 0..r.range(1, 4) {
@@ -747,7 +872,12 @@ fn gen_attr(kind: &str, r: &mut Rng) -> Vec<GenAttr> {
                 (r.below(256) as u8, r.below(256) as u8)
             };
             let (b, conf) = gen_extcom(r, t, st);
-            vec![ga(Attribute::EXTENDED_COMMUNITY, b.to_vec(), conf, &format!("{:02x}-{:02x}", t, st))]
+            vec![ga(
+                Attribute::EXTENDED_COMMUNITY,
+                b.to_vec(),
+                conf,
+                &format!("{:02x}-{:02x}", t, st),
+            )]
         }
         "extcom_multi" => {
             let mut v = Vec::new();
@@ -946,12 +1076,14 @@ fn gen_evpn(r: &mut Rng) -> (Nlri, &'static str) {
     let l24 = |r: &mut Rng| r.below(1 << 24) as u32;
     match r.below(5) {
         0 => (
-            Nlri::Evpn(EvpnNlri::EthernetAutoDiscovery(EthernetAutoDiscoveryRoute {
-                rd: gen_rd(r),
-                esi: gen_esi(r),
-                etag: rnd_u32(r),
-                label: l24(r),
-            })),
+            Nlri::Evpn(EvpnNlri::EthernetAutoDiscovery(
+                EthernetAutoDiscoveryRoute {
+                    rd: gen_rd(r),
+                    esi: gen_esi(r),
+                    etag: rnd_u32(r),
+                    label: l24(r),
+                },
+            )),
             "type1",
         ),
         1 => {
@@ -976,14 +1108,16 @@ fn gen_evpn(r: &mut Rng) -> (Nlri, &'static str) {
             )
         }
         2 => (
-            Nlri::Evpn(EvpnNlri::InclusiveMulticastEthernetTag(InclusiveMulticastEthernetTag {
-                rd: gen_rd(r),
-                etag: rnd_u32(r),
-                originating_router_ip: {
-                    let v6 = r.bool();
-                    gen_ip(r, v6)
+            Nlri::Evpn(EvpnNlri::InclusiveMulticastEthernetTag(
+                InclusiveMulticastEthernetTag {
+                    rd: gen_rd(r),
+                    etag: rnd_u32(r),
+                    originating_router_ip: {
+                        let v6 = r.bool();
+                        gen_ip(r, v6)
+                    },
                 },
-            })),
+            )),
             "type3",
         ),
         3 => (
@@ -1049,33 +1183,39 @@ fn gen_mup(fam: Family, r: &mut Rng) -> (Nlri, &'static str) {
         0 => {
             let len = r.range(0, maxbits) as u8;
             (
-                Nlri::Mup(MupNlri::InterworkSegmentDiscovery(MupInterworkSegmentDiscoveryRoute {
-                    rd: gen_rd(r),
-                    prefix_addr: masked(r, len),
-                    prefix_len: len,
-                })),
+                Nlri::Mup(MupNlri::InterworkSegmentDiscovery(
+                    MupInterworkSegmentDiscoveryRoute {
+                        rd: gen_rd(r),
+                        prefix_addr: masked(r, len),
+                        prefix_len: len,
+                    },
+                )),
                 "isd",
             )
         }
         1 => (
-            Nlri::Mup(MupNlri::DirectSegmentDiscovery(MupDirectSegmentDiscoveryRoute {
-                rd: gen_rd(r),
-                address: gen_ip(r, v6),
-            })),
+            Nlri::Mup(MupNlri::DirectSegmentDiscovery(
+                MupDirectSegmentDiscoveryRoute {
+                    rd: gen_rd(r),
+                    address: gen_ip(r, v6),
+                },
+            )),
             "dsd",
         ),
         2 => {
             let len = r.range(0, maxbits) as u8;
             (
-                Nlri::Mup(MupNlri::Type1SessionTransformed(MupType1SessionTransformedRoute {
-                    rd: gen_rd(r),
-                    prefix_addr: masked(r, len),
-                    prefix_len: len,
-                    teid: rnd_u32(r),
-                    qfi: r.below(64) as u8,
-                    endpoint_address: gen_ip(r, v6),
-                    source_address: if r.bool() { Some(gen_ip(r, v6)) } else { None },
-                })),
+                Nlri::Mup(MupNlri::Type1SessionTransformed(
+                    MupType1SessionTransformedRoute {
+                        rd: gen_rd(r),
+                        prefix_addr: masked(r, len),
+                        prefix_len: len,
+                        teid: rnd_u32(r),
+                        qfi: r.below(64) as u8,
+                        endpoint_address: gen_ip(r, v6),
+                        source_address: if r.bool() { Some(gen_ip(r, v6)) } else { None },
+                    },
+                )),
                 "t1st",
             )
         }
@@ -1088,19 +1228,25 @@ fn gen_mup(fam: Family, r: &mut Rng) -> (Nlri, &'static str) {
                 (r.next_u32() >> (32 - 8 * nbytes)) << (32 - 8 * nbytes)
             };
             (
-                Nlri::Mup(MupNlri::Type2SessionTransformed(MupType2SessionTransformedRoute {
-                    rd: gen_rd(r),
-                    endpoint_address_length: maxbits as u8 + teid_bits,
-                    endpoint_address: gen_ip(r, v6),
-                    teid,
-                })),
+                Nlri::Mup(MupNlri::Type2SessionTransformed(
+                    MupType2SessionTransformedRoute {
+                        rd: gen_rd(r),
+                        endpoint_address_length: maxbits as u8 + teid_bits,
+                        endpoint_address: gen_ip(r, v6),
+                        teid,
+                    },
+                )),
                 "t2st",
             )
         }
     }
 }
 
-fn gen_node_desc(r: &mut Rng, representable: &mut bool, feature: &mut &'static str) -> packet::ls::NodeDescriptor {
+fn gen_node_desc(
+    r: &mut Rng,
+    representable: &mut bool,
+    feature: &mut &'static str,
+) -> packet::ls::NodeDescriptor {
     let nz = |r: &mut Rng| Some(r.next_u32() | 1);
     let mut nd = packet::ls::NodeDescriptor::default();
     if r.chance(3, 4) {
@@ -1202,7 +1348,10 @@ fn gen_ls_nlri(r: &mut Rng) -> (Nlri, &'static str, bool) {
             } else {
                 rnd_v4(r).octets()[..nbytes].to_vec()
             };
-            prefix_desc.push(PrefixDescTlv::IpReachability { prefix_len: len, addr });
+            prefix_desc.push(PrefixDescTlv::IpReachability {
+                prefix_len: len,
+                addr,
+            });
             let p = BgpLsPrefixNlri {
                 protocol_id,
                 identifier,
@@ -1210,9 +1359,17 @@ fn gen_ls_nlri(r: &mut Rng) -> (Nlri, &'static str, bool) {
                 prefix_desc,
             };
             if v6 {
-                (Nlri::Ls(BgpLsNlri::PrefixV6(p)), if feat.is_empty() { "prefix-v6" } else { feat }, rep)
+                (
+                    Nlri::Ls(BgpLsNlri::PrefixV6(p)),
+                    if feat.is_empty() { "prefix-v6" } else { feat },
+                    rep,
+                )
             } else {
-                (Nlri::Ls(BgpLsNlri::PrefixV4(p)), if feat.is_empty() { "prefix-v4" } else { feat }, rep)
+                (
+                    Nlri::Ls(BgpLsNlri::PrefixV4(p)),
+                    if feat.is_empty() { "prefix-v4" } else { feat },
+                    rep,
+                )
             }
         }
         _ => {
@@ -1274,8 +1431,20 @@ fn gen_nlri(fam: Family, r: &mut Rng) -> (Nlri, String, bool) {
             String::new(),
             true,
         ),
-        Family::IPV4_FLOWSPEC => (Nlri::FlowspecV4(FlowspecV4Nlri { components: gen_fs_v4(r) }), String::new(), true),
-        Family::IPV6_FLOWSPEC => (Nlri::FlowspecV6(FlowspecV6Nlri { components: gen_fs_v6(r) }), String::new(), true),
+        Family::IPV4_FLOWSPEC => (
+            Nlri::FlowspecV4(FlowspecV4Nlri {
+                components: gen_fs_v4(r),
+            }),
+            String::new(),
+            true,
+        ),
+        Family::IPV6_FLOWSPEC => (
+            Nlri::FlowspecV6(FlowspecV6Nlri {
+                components: gen_fs_v6(r),
+            }),
+            String::new(),
+            true,
+        ),
         Family::IPV4_FLOWSPEC_VPN => (
             Nlri::FlowspecVpnV4(FlowspecVpnV4Nlri {
                 rd: gen_rd(r),
@@ -1299,10 +1468,18 @@ fn gen_nlri(fam: Family, r: &mut Rng) -> (Nlri, String, bool) {
         Family::RTC => {
             use packet::rtc::{MatchType, RtcNlri};
             match r.below(4) {
-                0 => (Nlri::Rtc(RtcNlri { match_type: MatchType::Wildcard }), "wildcard".into(), true),
+                0 => (
+                    Nlri::Rtc(RtcNlri {
+                        match_type: MatchType::Wildcard,
+                    }),
+                    "wildcard".into(),
+                    true,
+                ),
                 1 => (
                     Nlri::Rtc(RtcNlri {
-                        match_type: MatchType::AsWildcard { origin_as: r.next_u32() | 1 },
+                        match_type: MatchType::AsWildcard {
+                            origin_as: r.next_u32() | 1,
+                        },
                     }),
                     "as-wildcard".into(),
                     true,
@@ -1415,7 +1592,12 @@ fn build_policy(dir: table::PolicyDirection) -> Arc<table::PolicyAssignment> {
     .expect("community set");
     pt.add_defined_set(DefinedSetConfig::AsPath {
         name: "as".into(),
-        patterns: vec!["_65001_".into(), "^65001_".into(), "_65003$".into(), "^65001$".into()],
+        patterns: vec![
+            "_65001_".into(),
+            "^65001_".into(),
+            "_65003$".into(),
+            "^65001$".into(),
+        ],
     })
     .expect("as-path set");
     pt.add_defined_set(DefinedSetConfig::ExtCommunity {
@@ -1429,17 +1611,45 @@ fn build_policy(dir: table::PolicyDirection) -> Arc<table::PolicyAssignment> {
     })
     .expect("large-community set");
     let conds: Vec<(&str, CC, Actions)> = vec![
-        ("aspl-ge", CC::AsPathLength(Comparison::Ge, 3), Actions::default()),
-        ("aspl-le", CC::AsPathLength(Comparison::Le, 300), Actions::default()),
+        (
+            "aspl-ge",
+            CC::AsPathLength(Comparison::Ge, 3),
+            Actions::default(),
+        ),
+        (
+            "aspl-le",
+            CC::AsPathLength(Comparison::Le, 300),
+            Actions::default(),
+        ),
         ("origin0", CC::Origin(0), Actions::default()),
         ("origin2", CC::Origin(2), Actions::default()),
         ("lp", CC::LocalPrefEq(100), Actions::default()),
         ("med", CC::MedEq(0), Actions::default()),
-        ("comm", CC::CommunitySet("cs".into(), MatchOption::Any), Actions::default()),
-        ("commcnt", CC::CommunityCount(Comparison::Ge, 1), Actions::default()),
-        ("aspath", CC::AsPathSet("as".into(), MatchOption::Any), Actions::default()),
-        ("ext", CC::ExtCommunitySet("es".into(), MatchOption::Any), Actions::default()),
-        ("large", CC::LargeCommunitySet("ls".into(), MatchOption::Any), Actions::default()),
+        (
+            "comm",
+            CC::CommunitySet("cs".into(), MatchOption::Any),
+            Actions::default(),
+        ),
+        (
+            "commcnt",
+            CC::CommunityCount(Comparison::Ge, 1),
+            Actions::default(),
+        ),
+        (
+            "aspath",
+            CC::AsPathSet("as".into(), MatchOption::Any),
+            Actions::default(),
+        ),
+        (
+            "ext",
+            CC::ExtCommunitySet("es".into(), MatchOption::Any),
+            Actions::default(),
+        ),
+        (
+            "large",
+            CC::LargeCommunitySet("ls".into(), MatchOption::Any),
+            Actions::default(),
+        ),
         (
             "act1",
             CC::AsPathLength(Comparison::Ge, 0),
@@ -1478,7 +1688,8 @@ fn build_policy(dir: table::PolicyDirection) -> Arc<table::PolicyAssignment> {
     ];
     let mut names = Vec::new();
     for (n, c, a) in conds {
-        pt.add_statement(n, vec![c], None, a).expect("add_statement");
+        pt.add_statement(n, vec![c], None, a)
+            .expect("add_statement");
         names.push(n.to_string());
     }
     pt.add_policy("p", names).expect("add_policy");
@@ -1491,7 +1702,11 @@ impl Ctx {
         let mut rpki = table::RpkiTable::new();
         rpki.insert(
             packet::IpNet::new(IpAddr::V4(Ipv4Addr::new(10, 0, 0, 0)), 8),
-            Arc::new(table::Roa::new(24, 65001, Arc::new(IpAddr::V4(Ipv4Addr::new(198, 51, 100, 1))))),
+            Arc::new(table::Roa::new(
+                24,
+                65001,
+                Arc::new(IpAddr::V4(Ipv4Addr::new(198, 51, 100, 1))),
+            )),
         );
         Ctx {
             rep: Report::new("C17", params),
@@ -1513,7 +1728,12 @@ impl Ctx {
         let sig = format!("C17/panic/{}:{}", p.location, panic_class(&p.message));
         self.rep.violation(
             &sig,
-            &format!("{} panicked at {}: {}", stage, p.location, trunc(p.message.clone())),
+            &format!(
+                "{} panicked at {}: {}",
+                stage,
+                p.location,
+                trunc(p.message.clone())
+            ),
             witness,
         );
     }
@@ -1528,7 +1748,10 @@ fn attr_same(a: &Attribute, b: &Attribute) -> (bool, &'static str) {
     if a == b {
         return (true, "strict");
     }
-    if a.code() == b.code() && attr_bytes(a) == attr_bytes(b) && a.value().is_some() == b.value().is_some() {
+    if a.code() == b.code()
+        && attr_bytes(a) == attr_bytes(b)
+        && a.value().is_some() == b.value().is_some()
+    {
         if (a.flags() ^ b.flags()) & 0xe0 == 0 {
             return (true, "flags-repr");
         }
@@ -1561,7 +1784,9 @@ fn roundtrip_attr(ctx: &mut Ctx, a: &Attribute, g: Option<&GenAttr>, origin: &st
     let code = a.code();
     let label = attr_code_label(code);
     ctx.rep.count(&format!("rt:attr:{}", label));
-    ctx.rep.nontrivial(fnv64(format!("attr|{}|{}|{}", code, a.flags(), hex(&attr_bytes(a))).as_bytes()));
+    ctx.rep.nontrivial(fnv64(
+        format!("attr|{}|{}|{}", code, a.flags(), hex(&attr_bytes(a))).as_bytes(),
+    ));
     let sub = g.map(|g| g.sub.clone()).unwrap_or_default();
     let canon = g.map(|g| g.canon).unwrap_or(true);
     let wit = |api: &str, back: &str| {
@@ -1600,7 +1825,8 @@ fn roundtrip_attr(ctx: &mut Ctx, a: &Attribute, g: Option<&GenAttr>, origin: &st
     match back {
         Err(e) => {
             if !canon {
-                ctx.rep.count(&format!("unjudged:noncanonical-input/attr/{}", label));
+                ctx.rep
+                    .count(&format!("unjudged:noncanonical-input/attr/{}", label));
                 return;
             }
             let w = wit(&api_s, &format!("Err({:?})", e));
@@ -1627,7 +1853,8 @@ fn roundtrip_attr(ctx: &mut Ctx, a: &Attribute, g: Option<&GenAttr>, origin: &st
                 }
             }
             if !canon {
-                ctx.rep.count(&format!("unjudged:noncanonical-input/attr/{}", label));
+                ctx.rep
+                    .count(&format!("unjudged:noncanonical-input/attr/{}", label));
                 return;
             }
             let subsig = if code == Attribute::EXTENDED_COMMUNITY {
@@ -1638,7 +1865,10 @@ fn roundtrip_attr(ctx: &mut Ctx, a: &Attribute, g: Option<&GenAttr>, origin: &st
             let w = wit(&api_s, &attr_dbg(&b));
             ctx.rep.violation(
                 &mk_sig(&subsig),
-                &format!("attribute {} changes on attr_to_api -> attr_from_api ({})", label, note),
+                &format!(
+                    "attribute {} changes on attr_to_api -> attr_from_api ({})",
+                    label, note
+                ),
                 w,
             );
         }
@@ -1653,7 +1883,9 @@ fn roundtrip_nlri(ctx: &mut Ctx, fam: Family, n: &Nlri, sub: &str, judged: bool,
     ctx.rep.eval();
     let fname = fam_name(fam);
     ctx.rep.count(&format!("rt:nlri:{}", fname));
-    ctx.rep.nontrivial(fnv64(format!("nlri|{}|{}", fname, hex(&n.encode_to_bytes())).as_bytes()));
+    ctx.rep.nontrivial(fnv64(
+        format!("nlri|{}|{}", fname, hex(&n.encode_to_bytes())).as_bytes(),
+    ));
     let sig = if sub.is_empty() {
         format!("C17/roundtrip/nlri/{}", fname)
     } else {
@@ -1685,15 +1917,25 @@ fn roundtrip_nlri(ctx: &mut Ctx, fam: Family, n: &Nlri, sub: &str, judged: bool,
         Ok(Ok(b)) if &b == n => ctx.rep.count("rt:ok:nlri"),
         Ok(r) => {
             if !judged {
-                ctx.rep.count(&format!("unjudged:not-representable-in-schema/nlri/{}", fname));
+                ctx.rep.count(&format!(
+                    "unjudged:not-representable-in-schema/nlri/{}",
+                    fname
+                ));
                 return;
             }
             let (what, back) = match r {
                 Ok(b) => ("changes on nlri_to_api -> net_from_api", nlri_dbg(&b)),
-                Err(e) => ("is rejected by net_from_api after nlri_to_api", format!("Err({:?})", e)),
+                Err(e) => (
+                    "is rejected by net_from_api after nlri_to_api",
+                    format!("Err({:?})", e),
+                ),
             };
             let w = wit(&api_s, &back);
-            ctx.rep.violation(&sig, &format!("{} NLRI decoded from the wire {}", fname, what), w);
+            ctx.rep.violation(
+                &sig,
+                &format!("{} NLRI decoded from the wire {}", fname, what),
+                w,
+            );
         }
     }
 }
@@ -1734,7 +1976,8 @@ fn part_a_case(ctx: &mut Ctx, r: &mut Rng, fam: Family, kind: &str) {
         Ok(x) => x,
         Err(e) => {
             ctx.rep.count("gen:wire-rejected");
-            ctx.rep.count(&format!("gen:wire-rejected:{}:{}", fam_name(fam), kind));
+            ctx.rep
+                .count(&format!("gen:wire-rejected:{}:{}", fam_name(fam), kind));
             return;
         }
     };
@@ -1765,7 +2008,13 @@ fn part_a_case(ctx: &mut Ctx, r: &mut Rng, fam: Family, kind: &str) {
             bgp::Nexthop::V6LinkLocal(a, _) => a.octets().to_vec(),
         };
         if let Some(a) = Attribute::new_with_bin(Attribute::NEXTHOP, bytes) {
-            roundtrip_attr(ctx, &a, None, "NEXT_HOP/MP_REACH next hop decoded from the wire", &wire_hex);
+            roundtrip_attr(
+                ctx,
+                &a,
+                None,
+                "NEXT_HOP/MP_REACH next hop decoded from the wire",
+                &wire_hex,
+            );
         }
         // MP_REACH attribute in the internal layout the daemon uses for API input
         if fam != Family::IPV4 {
@@ -1777,7 +2026,13 @@ fn part_a_case(ctx: &mut Ctx, r: &mut Rng, fam: Family, kind: &str) {
             v.extend_from_slice(&nb);
             v.push(0);
             if let Some(a) = Attribute::new_with_bin(Attribute::MP_REACH, v) {
-                roundtrip_attr(ctx, &a, None, "MP_REACH (daemon-internal layout)", &wire_hex);
+                roundtrip_attr(
+                    ctx,
+                    &a,
+                    None,
+                    "MP_REACH (daemon-internal layout)",
+                    &wire_hex,
+                );
             }
         }
     }
@@ -1798,12 +2053,24 @@ fn part_a_case(ctx: &mut Ctx, r: &mut Rng, fam: Family, kind: &str) {
 fn part_a_constructed(ctx: &mut Ctx, r: &mut Rng) {
     let segs = vec![(2u8, vec![65001u32, 4_200_000_001]), (1u8, vec![7, 8])];
     if let Some(a) = Attribute::new_with_bin(Attribute::AS4_PATH, as_path_bytes(&segs)) {
-        roundtrip_attr(ctx, &a, None, "constructed (AS4_PATH cannot be obtained from the wire decoder)", "");
+        roundtrip_attr(
+            ctx,
+            &a,
+            None,
+            "constructed (AS4_PATH cannot be obtained from the wire decoder)",
+            "",
+        );
     }
     let mut v = rnd_u32(r).to_be_bytes().to_vec();
     v.extend_from_slice(&rnd_v4(r).octets());
     if let Some(a) = Attribute::new_with_bin(Attribute::AS4_AGGREGATOR, v) {
-        roundtrip_attr(ctx, &a, None, "constructed (AS4_AGGREGATOR cannot be obtained from the wire decoder)", "");
+        roundtrip_attr(
+            ctx,
+            &a,
+            None,
+            "constructed (AS4_AGGREGATOR cannot be obtained from the wire decoder)",
+            "",
+        );
     }
 }
 
@@ -1839,7 +2106,15 @@ fn run_part_a(ctx: &mut Ctx, r: &mut Rng, rounds: u64) {
             wa(Attribute::AGGREGATOR, ag),
         ];
         let n = Nlri::V4(gen_v4net(r));
-        if let Ok((d, msg)) = wire_nlri(&mut c2, false, Family::IPV4, &n, 0, &Nh::V4(Ipv4Addr::new(10, 0, 0, 1)), &wattrs) {
+        if let Ok((d, msg)) = wire_nlri(
+            &mut c2,
+            false,
+            Family::IPV4,
+            &n,
+            0,
+            &Nh::V4(Ipv4Addr::new(10, 0, 0, 1)),
+            &wattrs,
+        ) {
             if d.n_err == 0 {
                 ctx.rep.count("updates:two-byte-as");
                 let h = hex(&msg);
@@ -1913,23 +2188,38 @@ fn validate_attr(a: &Attribute) -> Vec<(&'static str, String)> {
     };
     match code {
         Attribute::ORIGIN => match a.value() {
-            None => bad.push(("binary-valued", "ORIGIN carries a byte string, not a value".into())),
+            None => bad.push((
+                "binary-valued",
+                "ORIGIN carries a byte string, not a value".into(),
+            )),
             Some(v) if v > 2 => bad.push(("origin-range", format!("ORIGIN {} > 2", v))),
             _ => {}
         },
         Attribute::MULTI_EXIT_DESC | Attribute::LOCAL_PREF | Attribute::ORIGINATOR_ID => {
             if a.value().is_none() {
-                bad.push(("binary-valued", format!("attribute {} carries a byte string, not a 4-octet value", code)));
+                bad.push((
+                    "binary-valued",
+                    format!(
+                        "attribute {} carries a byte string, not a 4-octet value",
+                        code
+                    ),
+                ));
             }
         }
         _ => {
             let Some(b) = a.binary() else {
-                bad.push(("value-typed", format!("attribute {} carries a value, not a byte string", code)));
+                bad.push((
+                    "value-typed",
+                    format!("attribute {} carries a value, not a byte string", code),
+                ));
                 return bad;
             };
             let len = b.len();
             if len > 65535 {
-                bad.push(("too-long", format!("{} octets do not fit the 2-octet attribute length", len)));
+                bad.push((
+                    "too-long",
+                    format!("{} octets do not fit the 2-octet attribute length", len),
+                ));
             }
             match code {
                 Attribute::AS_PATH => {
@@ -1978,7 +2268,11 @@ fn export_ctx(role: PeerRole) -> PeerExportContext {
         local_asn: LOCAL_AS,
         local_addr: "192.0.2.254".parse().unwrap(),
         link_addr: None,
-        confederation_id: if role == PeerRole::ConfedEbgp { 65500 } else { 0 },
+        confederation_id: if role == PeerRole::ConfedEbgp {
+            65500
+        } else {
+            0
+        },
     }
 }
 
@@ -2002,7 +2296,11 @@ fn local_path_like(accepted: &[Attribute]) -> Vec<Attribute> {
     let mut v: Vec<Attribute> = Vec::new();
     for a in accepted {
         match a.code() {
-            Attribute::MP_REACH | Attribute::NEXTHOP | Attribute::ORIGINATOR_ID | Attribute::CLUSTER_LIST | Attribute::MP_UNREACH => {}
+            Attribute::MP_REACH
+            | Attribute::NEXTHOP
+            | Attribute::ORIGINATOR_ID
+            | Attribute::CLUSTER_LIST
+            | Attribute::MP_UNREACH => {}
             _ => v.push(a.clone()),
         }
     }
@@ -2059,9 +2357,45 @@ fn use_value(
     let mut change: Option<table::NlriChange> = None;
     match guard(|| {
         let mut t = table::Table::new(0);
-        let _ = t.insert(src_a.clone(), fam, nlri.clone(), 0, nexthop, base.clone(), None, false, false, None, 1);
-        let r1 = t.insert(src_b.clone(), fam, nlri.clone(), 0, nexthop, attrs.clone(), None, false, false, None, 2);
-        let r2 = t.insert(src_c.clone(), fam, nlri.clone(), 0, nexthop, attrs.clone(), None, false, false, None, 3);
+        let _ = t.insert(
+            src_a.clone(),
+            fam,
+            nlri.clone(),
+            0,
+            nexthop,
+            base.clone(),
+            None,
+            false,
+            false,
+            None,
+            1,
+        );
+        let r1 = t.insert(
+            src_b.clone(),
+            fam,
+            nlri.clone(),
+            0,
+            nexthop,
+            attrs.clone(),
+            None,
+            false,
+            false,
+            None,
+            2,
+        );
+        let r2 = t.insert(
+            src_c.clone(),
+            fam,
+            nlri.clone(),
+            0,
+            nexthop,
+            attrs.clone(),
+            None,
+            false,
+            false,
+            None,
+            3,
+        );
         let c = match r2 {
             table::InsertResult::Changed(c) => Some(c),
             _ => match r1 {
@@ -2152,7 +2486,14 @@ fn use_value(
                             let _ = c.encode_to(m, &mut buf);
                             buf.len()
                         }) {
-                            panics.push((format!("encode_to/{}{}", rname, if two_byte { "/2-octet-as" } else { "" }), p));
+                            panics.push((
+                                format!(
+                                    "encode_to/{}{}",
+                                    rname,
+                                    if two_byte { "/2-octet-as" } else { "" }
+                                ),
+                                p,
+                            ));
                         }
                     }
                 }
@@ -2182,7 +2523,10 @@ fn use_value(
     if check_wire && panics.is_empty() {
         let msg = bgp::Message::Update(bgp::Update::Reach {
             family: fam,
-            entries: vec![PathNlri { path_id: 0, nlri: nlri.clone() }],
+            entries: vec![PathNlri {
+                path_id: 0,
+                nlri: nlri.clone(),
+            }],
             nexthop,
             attr: attrs.clone(),
         });
@@ -2207,20 +2551,35 @@ fn use_value(
                             } else if d.family != fam || d.entries.len() != 1 {
                                 wire = Some("decoder sees a different family / NLRI count".into());
                             } else if &d.entries[0].nlri != nlri {
-                                wire = Some(format!("decoder reads the NLRI back as {}", nlri_dbg(&d.entries[0].nlri)));
+                                wire = Some(format!(
+                                    "decoder reads the NLRI back as {}",
+                                    nlri_dbg(&d.entries[0].nlri)
+                                ));
                             } else {
                                 for a in attrs.iter() {
-                                    if matches!(a.code(), Attribute::AS4_PATH | Attribute::AS4_AGGREGATOR) {
+                                    if matches!(
+                                        a.code(),
+                                        Attribute::AS4_PATH | Attribute::AS4_AGGREGATOR
+                                    ) {
                                         continue; // discarded between 4-octet speakers by design
                                     }
                                     match d.attrs.iter().find(|x| x.code() == a.code()) {
                                         None => {
-                                            wire = Some(format!("attribute {} does not come back", a.code()));
+                                            wire = Some(format!(
+                                                "attribute {} does not come back",
+                                                a.code()
+                                            ));
                                             break;
                                         }
                                         Some(x) => {
-                                            if !attr_same(a, x).0 && attr_same(a, x).1 != "partial-bit" {
-                                                wire = Some(format!("attribute {} comes back as {}", a.code(), attr_dbg(x)));
+                                            if !attr_same(a, x).0
+                                                && attr_same(a, x).1 != "partial-bit"
+                                            {
+                                                wire = Some(format!(
+                                                    "attribute {} comes back as {}",
+                                                    a.code(),
+                                                    attr_dbg(x)
+                                                ));
                                                 break;
                                             }
                                         }
@@ -2243,11 +2602,17 @@ fn api_attr(a: api::attribute::Attr) -> api::Attribute {
 }
 
 fn api_unknown(t: u32, flags: u32, value: Vec<u8>) -> api::Attribute {
-    api_attr(api::attribute::Attr::Unknown(api::UnknownAttribute { flags, r#type: t, value }))
+    api_attr(api::attribute::Attr::Unknown(api::UnknownAttribute {
+        flags,
+        r#type: t,
+        value,
+    }))
 }
 
 fn api_origin(v: u32) -> api::Attribute {
-    api_attr(api::attribute::Attr::Origin(api::OriginAttribute { origin: v }))
+    api_attr(api::attribute::Attr::Origin(api::OriginAttribute {
+        origin: v,
+    }))
 }
 
 fn api_as_path(segs: Vec<(i32, Vec<u32>)>) -> api::Attribute {
@@ -2260,7 +2625,9 @@ fn api_as_path(segs: Vec<(i32, Vec<u32>)>) -> api::Attribute {
 }
 
 fn api_next_hop(s: &str) -> api::Attribute {
-    api_attr(api::attribute::Attr::NextHop(api::NextHopAttribute { next_hop: s.to_string() }))
+    api_attr(api::attribute::Attr::NextHop(api::NextHopAttribute {
+        next_hop: s.to_string(),
+    }))
 }
 
 fn api_mp_reach(fam: Option<Family>, nhs: Vec<String>) -> api::Attribute {
@@ -2335,10 +2702,22 @@ fn directed_api_attrs() -> Vec<api::Attribute> {
     v.push(api_as_path(vec![(-1, vec![65001])]));
     v.push(api_as_path(vec![(2, vec![])]));
     v.push(api_as_path(vec![(2, vec![65001]), (1, vec![])]));
-    v.push(api_as_path(vec![(2, (0..256).map(|i| 65000 + i).collect())]));
-    v.push(api_as_path(vec![(2, (0..300).map(|i| 65000 + i).collect())]));
-    v.push(api_as_path(vec![(2, (0..255).map(|i| 65000 + i).collect()), (2, vec![1])]));
-    v.push(api_as_path(vec![(2, (0..200).map(|i| 65000 + i).collect()), (2, (0..200).map(|i| 65000 + i).collect())]));
+    v.push(api_as_path(vec![(
+        2,
+        (0..256).map(|i| 65000 + i).collect(),
+    )]));
+    v.push(api_as_path(vec![(
+        2,
+        (0..300).map(|i| 65000 + i).collect(),
+    )]));
+    v.push(api_as_path(vec![
+        (2, (0..255).map(|i| 65000 + i).collect()),
+        (2, vec![1]),
+    ]));
+    v.push(api_as_path(vec![
+        (2, (0..200).map(|i| 65000 + i).collect()),
+        (2, (0..200).map(|i| 65000 + i).collect()),
+    ]));
     for s in ["", "garbage", "1.2.3.4/24", "1.2.3.4", "2001:db8::1"] {
         v.push(api_next_hop(s));
     }
@@ -2347,31 +2726,59 @@ fn directed_api_attrs() -> Vec<api::Attribute> {
     v.push(api_mp_reach(Some(Family::IPV6), vec!["garbage".into()]));
     v.push(api_mp_reach(Some(Family::IPV6), vec!["2001:db8::1".into()]));
     v.push(api_mp_reach(Some(Family::IPV4_FLOWSPEC), vec![]));
-    v.push(api_attr(api::attribute::Attr::MpReach(api::MpReachNlriAttribute {
-        family: Some(api::Family { afi: 70000, safi: 300 }),
-        next_hops: vec!["1.2.3.4".into()],
-        nlris: vec![],
-    })));
-    v.push(api_attr(api::attribute::Attr::Communities(api::CommunitiesAttribute {
-        communities: vec![1; 16384],
-    })));
-    v.push(api_attr(api::attribute::Attr::LargeCommunities(api::LargeCommunitiesAttribute {
-        communities: vec![api::LargeCommunity { global_admin: 1, local_data1: 2, local_data2: 3 }; 5462],
-    })));
-    v.push(api_attr(api::attribute::Attr::Aggregator(api::AggregatorAttribute {
-        asn: u32::MAX,
-        address: "garbage".into(),
-    })));
-    v.push(api_attr(api::attribute::Attr::OriginatorId(api::OriginatorIdAttribute { id: "".into() })));
-    v.push(api_attr(api::attribute::Attr::ClusterList(api::ClusterListAttribute {
-        ids: vec!["1.1.1.1".into(), "x".into()],
-    })));
+    v.push(api_attr(api::attribute::Attr::MpReach(
+        api::MpReachNlriAttribute {
+            family: Some(api::Family {
+                afi: 70000,
+                safi: 300,
+            }),
+            next_hops: vec!["1.2.3.4".into()],
+            nlris: vec![],
+        },
+    )));
+    v.push(api_attr(api::attribute::Attr::Communities(
+        api::CommunitiesAttribute {
+            communities: vec![1; 16384],
+        },
+    )));
+    v.push(api_attr(api::attribute::Attr::LargeCommunities(
+        api::LargeCommunitiesAttribute {
+            communities: vec![
+                api::LargeCommunity {
+                    global_admin: 1,
+                    local_data1: 2,
+                    local_data2: 3
+                };
+                5462
+            ],
+        },
+    )));
+    v.push(api_attr(api::attribute::Attr::Aggregator(
+        api::AggregatorAttribute {
+            asn: u32::MAX,
+            address: "garbage".into(),
+        },
+    )));
+    v.push(api_attr(api::attribute::Attr::OriginatorId(
+        api::OriginatorIdAttribute { id: "".into() },
+    )));
+    v.push(api_attr(api::attribute::Attr::ClusterList(
+        api::ClusterListAttribute {
+            ids: vec!["1.1.1.1".into(), "x".into()],
+        },
+    )));
     v
 }
 
 fn gen_api_extcom(r: &mut Rng) -> api::ExtendedCommunity {
     use api::extended_community::Extcom as E;
-    let big = |r: &mut Rng| if r.bool() { rnd_u32(r) } else { r.below(300) as u32 };
+    let big = |r: &mut Rng| {
+        if r.bool() {
+            rnd_u32(r)
+        } else {
+            r.below(300) as u32
+        }
+    };
     let e = match r.below(16) {
         0 => None,
         1 => Some(E::TwoOctetAsSpecific(api::TwoOctetAsSpecificExtended {
@@ -2408,22 +2815,35 @@ fn gen_api_extcom(r: &mut Rng) -> api::ExtendedCommunity {
             asn: big(r),
             rate: f32::from_bits(r.next_u32()),
         })),
-        7 => Some(E::TrafficAction(api::TrafficActionExtended { terminal: r.bool(), sample: r.bool() })),
-        8 => Some(E::RedirectTwoOctetAsSpecific(api::RedirectTwoOctetAsSpecificExtended {
-            asn: big(r),
-            local_admin: rnd_u32(r),
+        7 => Some(E::TrafficAction(api::TrafficActionExtended {
+            terminal: r.bool(),
+            sample: r.bool(),
         })),
-        9 => Some(E::TrafficRemark(api::TrafficRemarkExtended { dscp: big(r) })),
-        10 => Some(E::RedirectIpv4AddressSpecific(api::RedirectIPv4AddressSpecificExtended {
-            address: some_addr(r),
-            local_admin: big(r),
+        8 => Some(E::RedirectTwoOctetAsSpecific(
+            api::RedirectTwoOctetAsSpecificExtended {
+                asn: big(r),
+                local_admin: rnd_u32(r),
+            },
+        )),
+        9 => Some(E::TrafficRemark(api::TrafficRemarkExtended {
+            dscp: big(r),
         })),
-        11 => Some(E::RedirectFourOctetAsSpecific(api::RedirectFourOctetAsSpecificExtended {
-            asn: rnd_u32(r),
-            local_admin: big(r),
-        })),
+        10 => Some(E::RedirectIpv4AddressSpecific(
+            api::RedirectIPv4AddressSpecificExtended {
+                address: some_addr(r),
+                local_admin: big(r),
+            },
+        )),
+        11 => Some(E::RedirectFourOctetAsSpecific(
+            api::RedirectFourOctetAsSpecificExtended {
+                asn: rnd_u32(r),
+                local_admin: big(r),
+            },
+        )),
         12 => Some(E::Color(api::ColorExtended { color: rnd_u32(r) })),
-        13 => Some(E::Encap(api::EncapExtended { tunnel_type: big(r) })),
+        13 => Some(E::Encap(api::EncapExtended {
+            tunnel_type: big(r),
+        })),
         _ => Some(E::Unknown(api::UnknownExtended {
             r#type: r.below(256) as u32,
             value: r.bytes(8),
@@ -2434,54 +2854,87 @@ fn gen_api_extcom(r: &mut Rng) -> api::ExtendedCommunity {
 
 fn gen_api_tunnel(r: &mut Rng) -> api::Attribute {
     use api::tunnel_encap_tlv::tlv::Tlv as T;
-    let big = |r: &mut Rng| if r.bool() { rnd_u32(r) } else { r.below(300) as u32 };
+    let big = |r: &mut Rng| {
+        if r.bool() {
+            rnd_u32(r)
+        } else {
+            r.below(300) as u32
+        }
+    };
     let mut tlvs = Vec::new();
     for _ in 0..r.range(0, 3) {
         let mut subs = Vec::new();
         for _ in 0..r.range(0, 6) {
             let t = match r.below(10) {
                 0 => None,
-                1 => Some(T::SrPreference(api::TunnelEncapSubTlvsrPreference { flags: big(r), preference: rnd_u32(r) })),
+                1 => Some(T::SrPreference(api::TunnelEncapSubTlvsrPreference {
+                    flags: big(r),
+                    preference: rnd_u32(r),
+                })),
                 2 => Some(T::SrBindingSid(api::TunnelEncapSubTlvsrBindingSid {
                     bsid: match r.below(3) {
                         0 => None,
-                        1 => Some(api::tunnel_encap_sub_tlvsr_binding_sid::Bsid::SrBindingSid(api::SrBindingSid {
-                            s_flag: r.bool(),
-                            i_flag: r.bool(),
-                            sid: {
-                                let n = r.below(8) as usize;
-                                r.bytes(n)
+                        1 => Some(api::tunnel_encap_sub_tlvsr_binding_sid::Bsid::SrBindingSid(
+                            api::SrBindingSid {
+                                s_flag: r.bool(),
+                                i_flag: r.bool(),
+                                sid: {
+                                    let n = r.below(8) as usize;
+                                    r.bytes(n)
+                                },
                             },
-                        })),
-                        _ => Some(api::tunnel_encap_sub_tlvsr_binding_sid::Bsid::Srv6BindingSid(api::SRv6BindingSid {
-                            s_flag: r.bool(),
-                            i_flag: r.bool(),
-                            b_flag: r.bool(),
-                            sid: {
-                                let n = *r.pick(&[0usize, 4, 16, 16, 17]);
-                                r.bytes(n)
-                            },
-                            endpoint_behavior_structure: if r.bool() {
-                                Some(api::SRv6EndPointBehavior {
-                                    behavior: r.next_u32() as i32,
-                                    block_len: big(r),
-                                    node_len: big(r),
-                                    func_len: big(r),
-                                    arg_len: big(r),
-                                })
-                            } else {
-                                None
-                            },
-                        })),
+                        )),
+                        _ => Some(
+                            api::tunnel_encap_sub_tlvsr_binding_sid::Bsid::Srv6BindingSid(
+                                api::SRv6BindingSid {
+                                    s_flag: r.bool(),
+                                    i_flag: r.bool(),
+                                    b_flag: r.bool(),
+                                    sid: {
+                                        let n = *r.pick(&[0usize, 4, 16, 16, 17]);
+                                        r.bytes(n)
+                                    },
+                                    endpoint_behavior_structure: if r.bool() {
+                                        Some(api::SRv6EndPointBehavior {
+                                            behavior: r.next_u32() as i32,
+                                            block_len: big(r),
+                                            node_len: big(r),
+                                            func_len: big(r),
+                                            arg_len: big(r),
+                                        })
+                                    } else {
+                                        None
+                                    },
+                                },
+                            ),
+                        ),
                     },
                 })),
-                3 => Some(T::SrEnlp(api::TunnelEncapSubTlvsrenlp { flags: big(r), enlp: r.next_u32() as i32 })),
-                4 => Some(T::SrPriority(api::TunnelEncapSubTlvsrPriority { priority: big(r) })),
-                5 => Some(T::SrCandidatePathName(api::TunnelEncapSubTlvsrCandidatePathName {
-                    candidate_path_name: if r.chance(1, 6) { "n".repeat(70000) } else { "name".into() },
+                3 => Some(T::SrEnlp(api::TunnelEncapSubTlvsrenlp {
+                    flags: big(r),
+                    enlp: r.next_u32() as i32,
                 })),
+                4 => Some(T::SrPriority(api::TunnelEncapSubTlvsrPriority {
+                    priority: big(r),
+                })),
+                5 => Some(T::SrCandidatePathName(
+                    api::TunnelEncapSubTlvsrCandidatePathName {
+                        candidate_path_name: if r.chance(1, 6) {
+                            "n".repeat(70000)
+                        } else {
+                            "name".into()
+                        },
+                    },
+                )),
                 6 => Some(T::SrSegmentList(api::TunnelEncapSubTlvsrSegmentList {
-                    weight: if r.bool() { Some(api::SrWeight { flags: big(r), weight: rnd_u32(r) }) } else { None },
+                    weight: if r.bool() {
+                        Some(api::SrWeight {
+                            flags: big(r),
+                            weight: rnd_u32(r),
+                        })
+                    } else {
+                        None
+                    },
                     segments: (0..{
                         let hi = if r.chance(1, 10) { 80 } else { 4 };
                         r.range(0, hi)
@@ -2489,22 +2942,35 @@ fn gen_api_tunnel(r: &mut Rng) -> api::Attribute {
                         .map(|_| api::tunnel_encap_sub_tlvsr_segment_list::Segment {
                             segment: match r.below(3) {
                                 0 => None,
-                                1 => Some(api::tunnel_encap_sub_tlvsr_segment_list::segment::Segment::A(api::SegmentTypeA {
-                                    flags: if r.bool() {
-                                        Some(api::SegmentFlags { v_flag: r.bool(), a_flag: r.bool(), s_flag: r.bool(), b_flag: r.bool() })
-                                    } else {
-                                        None
-                                    },
-                                    label: rnd_u32(r),
-                                })),
-                                _ => Some(api::tunnel_encap_sub_tlvsr_segment_list::segment::Segment::B(api::SegmentTypeB {
-                                    flags: None,
-                                    sid: {
-                                        let n = *r.pick(&[0usize, 16, 16, 3]);
-                                        r.bytes(n)
-                                    },
-                                    endpoint_behavior_structure: None,
-                                })),
+                                1 => Some(
+                                    api::tunnel_encap_sub_tlvsr_segment_list::segment::Segment::A(
+                                        api::SegmentTypeA {
+                                            flags: if r.bool() {
+                                                Some(api::SegmentFlags {
+                                                    v_flag: r.bool(),
+                                                    a_flag: r.bool(),
+                                                    s_flag: r.bool(),
+                                                    b_flag: r.bool(),
+                                                })
+                                            } else {
+                                                None
+                                            },
+                                            label: rnd_u32(r),
+                                        },
+                                    ),
+                                ),
+                                _ => Some(
+                                    api::tunnel_encap_sub_tlvsr_segment_list::segment::Segment::B(
+                                        api::SegmentTypeB {
+                                            flags: None,
+                                            sid: {
+                                                let n = *r.pick(&[0usize, 16, 16, 3]);
+                                                r.bytes(n)
+                                            },
+                                            endpoint_behavior_structure: None,
+                                        },
+                                    ),
+                                ),
                             },
                         })
                         .collect(),
@@ -2517,7 +2983,9 @@ fn gen_api_tunnel(r: &mut Rng) -> api::Attribute {
                     },
                 })),
                 8 => Some(T::Color(api::TunnelEncapSubTlvColor { color: rnd_u32(r) })),
-                _ => Some(T::UdpDestPort(api::TunnelEncapSubTlvudpDestPort { port: big(r) })),
+                _ => Some(T::UdpDestPort(api::TunnelEncapSubTlvudpDestPort {
+                    port: big(r),
+                })),
             };
             subs.push(api::tunnel_encap_tlv::Tlv { tlv: t });
         }
@@ -2526,11 +2994,19 @@ fn gen_api_tunnel(r: &mut Rng) -> api::Attribute {
             tlvs: subs,
         });
     }
-    api_attr(api::attribute::Attr::TunnelEncap(api::TunnelEncapAttribute { tlvs }))
+    api_attr(api::attribute::Attr::TunnelEncap(
+        api::TunnelEncapAttribute { tlvs },
+    ))
 }
 
 fn gen_api_prefix_sid(r: &mut Rng) -> api::Attribute {
-    let big = |r: &mut Rng| if r.bool() { rnd_u32(r) } else { r.below(300) as u32 };
+    let big = |r: &mut Rng| {
+        if r.bool() {
+            rnd_u32(r)
+        } else {
+            r.below(300) as u32
+        }
+    };
     let mut tlvs = Vec::new();
     for _ in 0..r.range(0, 3) {
         let mut subs = std::collections::HashMap::new();
@@ -2544,14 +3020,16 @@ fn gen_api_prefix_sid(r: &mut Rng) -> api::Attribute {
                             tlv: if r.chance(1, 6) {
                                 None
                             } else {
-                                Some(api::s_rv6_sub_sub_tlv::Tlv::Structure(api::SRv6StructureSubSubTlv {
-                                    locator_block_length: big(r),
-                                    locator_node_length: big(r),
-                                    function_length: big(r),
-                                    argument_length: big(r),
-                                    transposition_length: big(r),
-                                    transposition_offset: big(r),
-                                }))
+                                Some(api::s_rv6_sub_sub_tlv::Tlv::Structure(
+                                    api::SRv6StructureSubSubTlv {
+                                        locator_block_length: big(r),
+                                        locator_node_length: big(r),
+                                        function_length: big(r),
+                                        argument_length: big(r),
+                                        transposition_length: big(r),
+                                        transposition_offset: big(r),
+                                    },
+                                ))
                             },
                         }],
                     },
@@ -2564,15 +3042,21 @@ fn gen_api_prefix_sid(r: &mut Rng) -> api::Attribute {
                         tlv: if r.chance(1, 6) {
                             None
                         } else {
-                            Some(api::s_rv6_sub_tlv::Tlv::Information(api::SRv6InformationSubTlv {
-                                sid: {
-                                    let n = *r.pick(&[16usize, 16, 16, 0, 15]);
-                                    r.bytes(n)
+                            Some(api::s_rv6_sub_tlv::Tlv::Information(
+                                api::SRv6InformationSubTlv {
+                                    sid: {
+                                        let n = *r.pick(&[16usize, 16, 16, 0, 15]);
+                                        r.bytes(n)
+                                    },
+                                    flags: if r.bool() {
+                                        Some(api::SRv6SidFlags { flag_1: r.bool() })
+                                    } else {
+                                        None
+                                    },
+                                    endpoint_behavior: big(r),
+                                    sub_sub_tlvs: subsub,
                                 },
-                                flags: if r.bool() { Some(api::SRv6SidFlags { flag_1: r.bool() }) } else { None },
-                                endpoint_behavior: big(r),
-                                sub_sub_tlvs: subsub,
-                            }))
+                            ))
                         },
                     }],
                 },
@@ -2580,8 +3064,12 @@ fn gen_api_prefix_sid(r: &mut Rng) -> api::Attribute {
         }
         let t = match r.below(5) {
             0 => None,
-            1 | 2 => Some(api::prefix_sid::tlv::Tlv::L3Service(api::SRv6L3ServiceTlv { sub_tlvs: subs })),
-            _ => Some(api::prefix_sid::tlv::Tlv::L2Service(api::SRv6L2ServiceTlv { sub_tlvs: subs })),
+            1 | 2 => Some(api::prefix_sid::tlv::Tlv::L3Service(
+                api::SRv6L3ServiceTlv { sub_tlvs: subs },
+            )),
+            _ => Some(api::prefix_sid::tlv::Tlv::L2Service(
+                api::SRv6L2ServiceTlv { sub_tlvs: subs },
+            )),
         };
         tlvs.push(api::prefix_sid::Tlv { tlv: t });
     }
@@ -2589,12 +3077,29 @@ fn gen_api_prefix_sid(r: &mut Rng) -> api::Attribute {
 }
 
 fn gen_api_ls(r: &mut Rng) -> api::Attribute {
-    let big = |r: &mut Rng| if r.bool() { rnd_u32(r) } else { r.below(300) as u32 };
+    let big = |r: &mut Rng| {
+        if r.bool() {
+            rnd_u32(r)
+        } else {
+            r.below(300) as u32
+        }
+    };
     let node = if r.bool() {
         Some(api::LsAttributeNode {
-            name: if r.chance(1, 8) { "n".repeat(70000) } else { "node".into() },
+            name: if r.chance(1, 8) {
+                "n".repeat(70000)
+            } else {
+                "node".into()
+            },
             flags: if r.bool() {
-                Some(api::LsNodeFlags { overload: r.bool(), attached: r.bool(), external: r.bool(), abr: r.bool(), router: r.bool(), v6: r.bool() })
+                Some(api::LsNodeFlags {
+                    overload: r.bool(),
+                    attached: r.bool(),
+                    external: r.bool(),
+                    abr: r.bool(),
+                    router: r.bool(),
+                    v6: r.bool(),
+                })
             } else {
                 None
             },
@@ -2612,7 +3117,12 @@ fn gen_api_ls(r: &mut Rng) -> api::Attribute {
                 Some(api::LsSrCapabilities {
                     ipv4_supported: r.bool(),
                     ipv6_supported: r.bool(),
-                    ranges: (0..r.range(0, 3)).map(|_| api::LsSrRange { begin: rnd_u32(r), end: rnd_u32(r) }).collect(),
+                    ranges: (0..r.range(0, 3))
+                        .map(|_| api::LsSrRange {
+                            begin: rnd_u32(r),
+                            end: rnd_u32(r),
+                        })
+                        .collect(),
                 })
             } else {
                 None
@@ -2623,7 +3133,12 @@ fn gen_api_ls(r: &mut Rng) -> api::Attribute {
             },
             sr_local_block: if r.bool() {
                 Some(api::LsSrLocalBlock {
-                    ranges: (0..r.range(0, 3)).map(|_| api::LsSrRange { begin: rnd_u32(r), end: rnd_u32(r) }).collect(),
+                    ranges: (0..r.range(0, 3))
+                        .map(|_| api::LsSrRange {
+                            begin: rnd_u32(r),
+                            end: rnd_u32(r),
+                        })
+                        .collect(),
                 })
             } else {
                 None
@@ -2649,7 +3164,9 @@ fn gen_api_ls(r: &mut Rng) -> api::Attribute {
             },
             bandwidth: f32::from_bits(r.next_u32()),
             reservable_bandwidth: f32::from_bits(r.next_u32()),
-            unreserved_bandwidth: (0..*r.pick(&[0usize, 8, 8, 3, 20])).map(|_| f32::from_bits(r.next_u32())).collect(),
+            unreserved_bandwidth: (0..*r.pick(&[0usize, 8, 8, 3, 20]))
+                .map(|_| f32::from_bits(r.next_u32()))
+                .collect(),
             sr_adjacency_sid: rnd_u32(r),
             srlgs: (0..r.below(4)).map(|_| rnd_u32(r)).collect(),
             srv6_end_x_sid: if r.bool() {
@@ -2661,7 +3178,12 @@ fn gen_api_ls(r: &mut Rng) -> api::Attribute {
                     reserved: big(r),
                     sids: (0..r.below(3)).map(|_| some_addr(r)).collect(),
                     srv6_sid_structure: if r.bool() {
-                        Some(api::LsSrv6SidStructure { local_block: big(r), local_node: big(r), local_func: big(r), local_arg: big(r) })
+                        Some(api::LsSrv6SidStructure {
+                            local_block: big(r),
+                            local_node: big(r),
+                            local_func: big(r),
+                            local_arg: big(r),
+                        })
                     } else {
                         None
                     },
@@ -2682,7 +3204,12 @@ fn gen_api_ls(r: &mut Rng) -> api::Attribute {
     let prefix = if r.bool() {
         Some(api::LsAttributePrefix {
             igp_flags: if r.bool() {
-                Some(api::LsIgpFlags { down: r.bool(), no_unicast: r.bool(), local_address: r.bool(), propagate_nssa: r.bool() })
+                Some(api::LsIgpFlags {
+                    down: r.bool(),
+                    no_unicast: r.bool(),
+                    local_address: r.bool(),
+                    propagate_nssa: r.bool(),
+                })
             } else {
                 None
             },
@@ -2692,7 +3219,11 @@ fn gen_api_ls(r: &mut Rng) -> api::Attribute {
             },
             sr_prefix_sid: rnd_u32(r),
             sr_prefix_sids: (0..r.below(3))
-                .map(|_| api::LsAttributePrefixSid { algorithm: big(r), flags: big(r), sid: rnd_u32(r) })
+                .map(|_| api::LsAttributePrefixSid {
+                    algorithm: big(r),
+                    flags: big(r),
+                    sid: rnd_u32(r),
+                })
                 .collect(),
             fad_prefix_metrics: vec![],
         })
@@ -2703,7 +3234,12 @@ fn gen_api_ls(r: &mut Rng) -> api::Attribute {
         if r.bool() {
             Some(api::LsBgpPeerSegmentSid {
                 flags: if r.bool() {
-                    Some(api::LsBgpPeerSegmentSidFlags { value: r.bool(), local: r.bool(), backup: r.bool(), persistent: r.bool() })
+                    Some(api::LsBgpPeerSegmentSidFlags {
+                        value: r.bool(),
+                        local: r.bool(),
+                        backup: r.bool(),
+                        persistent: r.bool(),
+                    })
                 } else {
                     None
                 },
@@ -2728,7 +3264,12 @@ fn gen_api_ls(r: &mut Rng) -> api::Attribute {
             srv6_sid_structure: None,
             srv6_endpoint_behavior: None,
             srv6_bgp_peer_node_sid: if r.bool() {
-                Some(api::LsSrv6BgpPeerNodeSid { flags: big(r), weight: big(r), peer_as: rnd_u32(r), peer_bgp_id: some_addr(r) })
+                Some(api::LsSrv6BgpPeerNodeSid {
+                    flags: big(r),
+                    weight: big(r),
+                    peer_as: rnd_u32(r),
+                    peer_bgp_id: some_addr(r),
+                })
             } else {
                 None
             },
@@ -2736,7 +3277,13 @@ fn gen_api_ls(r: &mut Rng) -> api::Attribute {
     } else {
         None
     };
-    api_attr(api::attribute::Attr::Ls(api::LsAttribute { node, link, prefix, bgp_peer_segment, srv6_sid }))
+    api_attr(api::attribute::Attr::Ls(api::LsAttribute {
+        node,
+        link,
+        prefix,
+        bgp_peer_segment,
+        srv6_sid,
+    }))
 }
 
 fn gen_api_attr(r: &mut Rng) -> api::Attribute {
@@ -2744,7 +3291,9 @@ fn gen_api_attr(r: &mut Rng) -> api::Attribute {
     match r.below(22) {
         0 | 1 | 2 => {
             let t = match r.below(4) {
-                0 => *r.pick(&[1u32, 2, 3, 4, 5, 6, 7, 8, 9, 10, 14, 15, 16, 17, 18, 23, 26, 29, 32, 40]),
+                0 => *r.pick(&[
+                    1u32, 2, 3, 4, 5, 6, 7, 8, 9, 10, 14, 15, 16, 17, 18, 23, 26, 29, 32, 40,
+                ]),
                 1 => 256 + *r.pick(&[1u32, 2, 4, 5, 9]),
                 2 => r.below(256) as u32,
                 _ => rnd_u32(r),
@@ -2760,7 +3309,11 @@ fn gen_api_attr(r: &mut Rng) -> api::Attribute {
             };
             api_unknown(t, rnd_u32(r), r.bytes(n))
         }
-        3 => api_origin(if r.bool() { r.below(4) as u32 } else { rnd_u32(r) }),
+        3 => api_origin(if r.bool() {
+            r.below(4) as u32
+        } else {
+            rnd_u32(r)
+        }),
         4 | 5 => {
             let nseg = r.range(0, 4);
             let mut segs = Vec::new();
@@ -2781,30 +3334,55 @@ fn gen_api_attr(r: &mut Rng) -> api::Attribute {
             api_as_path(segs)
         }
         6 => api_next_hop(&some_addr(r)),
-        7 => api_attr(A::MultiExitDisc(api::MultiExitDiscAttribute { med: rnd_u32(r) })),
-        8 => api_attr(A::LocalPref(api::LocalPrefAttribute { local_pref: rnd_u32(r) })),
+        7 => api_attr(A::MultiExitDisc(api::MultiExitDiscAttribute {
+            med: rnd_u32(r),
+        })),
+        8 => api_attr(A::LocalPref(api::LocalPrefAttribute {
+            local_pref: rnd_u32(r),
+        })),
         9 => api_attr(A::AtomicAggregate(api::AtomicAggregateAttribute {})),
-        10 => api_attr(A::Aggregator(api::AggregatorAttribute { asn: rnd_u32(r), address: some_addr(r) })),
+        10 => api_attr(A::Aggregator(api::AggregatorAttribute {
+            asn: rnd_u32(r),
+            address: some_addr(r),
+        })),
         11 => {
-            let n = if r.chance(1, 30) { 16384 + r.below(3) as usize } else { r.below(6) as usize };
+            let n = if r.chance(1, 30) {
+                16384 + r.below(3) as usize
+            } else {
+                r.below(6) as usize
+            };
             api_attr(A::Communities(api::CommunitiesAttribute {
                 communities: (0..n).map(|_| rnd_u32(r)).collect(),
             }))
         }
-        12 => api_attr(A::OriginatorId(api::OriginatorIdAttribute { id: some_addr(r) })),
+        12 => api_attr(A::OriginatorId(api::OriginatorIdAttribute {
+            id: some_addr(r),
+        })),
         13 => api_attr(A::ClusterList(api::ClusterListAttribute {
             ids: (0..r.below(4)).map(|_| some_addr(r)).collect(),
         })),
         14 => {
-            let n = if r.chance(1, 30) { 5462 } else { r.below(4) as usize };
+            let n = if r.chance(1, 30) {
+                5462
+            } else {
+                r.below(4) as usize
+            };
             api_attr(A::LargeCommunities(api::LargeCommunitiesAttribute {
                 communities: (0..n)
-                    .map(|_| api::LargeCommunity { global_admin: rnd_u32(r), local_data1: rnd_u32(r), local_data2: rnd_u32(r) })
+                    .map(|_| api::LargeCommunity {
+                        global_admin: rnd_u32(r),
+                        local_data1: rnd_u32(r),
+                        local_data2: rnd_u32(r),
+                    })
                     .collect(),
             }))
         }
         15 | 16 => {
-            let n = if r.chance(1, 40) { 8192 } else { r.range(0, 4) as usize };
+            let n = if r.chance(1, 40) {
+                8192
+            } else {
+                r.range(0, 4) as usize
+            };
             api_attr(A::ExtendedCommunities(api::ExtendedCommunitiesAttribute {
                 communities: (0..n).map(|_| gen_api_extcom(r)).collect(),
             }))
@@ -2812,7 +3390,10 @@ fn gen_api_attr(r: &mut Rng) -> api::Attribute {
         17 => {
             let fam = match r.below(4) {
                 0 => None,
-                1 => Some(api::Family { afi: rnd_u32(r) as i32, safi: rnd_u32(r) as i32 }),
+                1 => Some(api::Family {
+                    afi: rnd_u32(r) as i32,
+                    safi: rnd_u32(r) as i32,
+                }),
                 _ => Some(family_to_api(FAMILIES[r.usize(FAMILIES.len())].0)),
             };
             api_attr(A::MpReach(api::MpReachNlriAttribute {
@@ -2828,8 +3409,14 @@ fn gen_api_attr(r: &mut Rng) -> api::Attribute {
             0 => api::Attribute { attr: None },
             1 => api_attr(A::As4Path(api::As4PathAttribute { segments: vec![] })),
             2 => api_attr(A::Aigp(api::AigpAttribute { tlvs: vec![] })),
-            3 => api_attr(A::MpUnreach(api::MpUnreachNlriAttribute { family: None, nlris: vec![] })),
-            _ => api_attr(A::As4Aggregator(api::As4AggregatorAttribute { asn: 1, address: "x".into() })),
+            3 => api_attr(A::MpUnreach(api::MpUnreachNlriAttribute {
+                family: None,
+                nlris: vec![],
+            })),
+            _ => api_attr(A::As4Aggregator(api::As4AggregatorAttribute {
+                asn: 1,
+                address: "x".into(),
+            })),
         },
     }
 }
@@ -2837,7 +3424,10 @@ fn gen_api_attr(r: &mut Rng) -> api::Attribute {
 fn api_variant_name(a: &api::Attribute) -> String {
     let s = format!("{:?}", a.attr);
     let s = s.strip_prefix("Some(").unwrap_or(&s);
-    s.split(|c| c == '(' || c == ' ').next().unwrap_or("?").to_string()
+    s.split(|c| c == '(' || c == ' ')
+        .next()
+        .unwrap_or("?")
+        .to_string()
 }
 
 // ------------------------------------------------------------------ (b) driver for attributes
@@ -2867,7 +3457,10 @@ fn part_b_attr(ctx: &mut Ctx, m: api::Attribute) {
     let code = a.code();
     let bad = validate_attr(&a);
     let wire_valid = bad.is_empty();
-    if via_unknown && Attribute::canonical_flags(code).is_some() && matches!(code, 1 | 2 | 4 | 5 | 9) {
+    if via_unknown
+        && Attribute::canonical_flags(code).is_some()
+        && matches!(code, 1 | 2 | 4 | 5 | 9)
+    {
         ctx.rep.count("b:unknown-with-wellknown-code-accepted");
     }
     if wire_valid {
@@ -2877,19 +3470,30 @@ fn part_b_attr(ctx: &mut Ctx, m: api::Attribute) {
     let attrs = Arc::new(local_path_like(&[a.clone()]));
     let reaches_table = attrs.iter().any(|x| x == &a);
     let big = a.binary().map(|b| b.len() > 3500).unwrap_or(false);
-    let nlri = Nlri::V4(bgp::Ipv4Net { addr: Ipv4Addr::new(10, 1, 0, 0), mask: 16 });
+    let nlri = Nlri::V4(bgp::Ipv4Net {
+        addr: Ipv4Addr::new(10, 1, 0, 0),
+        mask: 16,
+    });
     let nh = Some(bgp::Nexthop::V4(Ipv4Addr::new(10, 0, 0, 1)));
     let ur = if reaches_table {
         ctx.rep.count("b:attr-used");
         use_value(ctx, Family::IPV4, &nlri, nh, &attrs, wire_valid && !big)
     } else {
         ctx.rep.count("b:attr-dropped-by-local_path(not used)");
-        UseResult { panics: vec![], wire: None }
+        UseResult {
+            panics: vec![],
+            wire: None,
+        }
     };
     let consequences: Vec<String> = {
         let mut v: Vec<String> = Vec::new();
         for (stage, p) in ur.panics.iter() {
-            let s = format!("{} panics at {} ({})", stage.split('/').next().unwrap_or(""), p.location, panic_class(&p.message));
+            let s = format!(
+                "{} panics at {} ({})",
+                stage.split('/').next().unwrap_or(""),
+                p.location,
+                panic_class(&p.message)
+            );
             if !v.contains(&s) {
                 v.push(s);
             }
@@ -2897,7 +3501,10 @@ fn part_b_attr(ctx: &mut Ctx, m: api::Attribute) {
         v
     };
     for (stage, p) in ur.panics.iter() {
-        ctx.rep.count(&format!("b:use-panic:{}", stage.split('/').next().unwrap_or("")));
+        ctx.rep.count(&format!(
+            "b:use-panic:{}",
+            stage.split('/').next().unwrap_or("")
+        ));
     }
     // A value that breaks a wire rule is reported under that rule (the root
     // cause); the crashes it leads to are its consequences and go into the
@@ -2920,7 +3527,11 @@ fn part_b_attr(ctx: &mut Ctx, m: api::Attribute) {
             &sig,
             &format!(
                 "attr_from_api accepts a {} attribute the wire decoder would reject: {}{}",
-                if via_unknown { "well-known-code `Unknown`" } else { "typed" },
+                if via_unknown {
+                    "well-known-code `Unknown`"
+                } else {
+                    "typed"
+                },
                 detail,
                 if consequences.is_empty() {
                     String::new()
@@ -2967,7 +3578,10 @@ fn part_b_attr(ctx: &mut Ctx, m: api::Attribute) {
         };
         ctx.rep.violation(
             &sig,
-            &format!("a value accepted by attr_from_api is not accepted back by the wire decoder: {}", trunc(why.clone())),
+            &format!(
+                "a value accepted by attr_from_api is not accepted back by the wire decoder: {}",
+                trunc(why.clone())
+            ),
             Json::obj(vec![
                 ("api", Json::s(m_s.clone())),
                 ("accepted_as", Json::s(attr_dbg(&a))),
@@ -2976,7 +3590,11 @@ fn part_b_attr(ctx: &mut Ctx, m: api::Attribute) {
         );
     }
     if ctx.rep.want_sample() && ctx.rep.evaluations % 97 == 3 {
-        ctx.rep.sample(Json::obj(vec![("part", Json::s("b")), ("api", Json::s(m_s)), ("accepted_as", Json::s(attr_dbg(&a)))]));
+        ctx.rep.sample(Json::obj(vec![
+            ("part", Json::s("b")),
+            ("api", Json::s(m_s)),
+            ("accepted_as", Json::s(attr_dbg(&a))),
+        ]));
     }
 }
 
@@ -3001,20 +3619,45 @@ fn mutate_rd(rd: &mut Option<api::RouteDistinguisher>, r: &mut Rng) {
         0 => None,
         1 => Some(api::RouteDistinguisher { rd: None }),
         2 => Some(api::RouteDistinguisher {
-            rd: Some(Rd::TwoOctetAsn(api::RouteDistinguisherTwoOctetAsn { admin: rnd_u32(r), assigned: rnd_u32(r) })),
+            rd: Some(Rd::TwoOctetAsn(api::RouteDistinguisherTwoOctetAsn {
+                admin: rnd_u32(r),
+                assigned: rnd_u32(r),
+            })),
         }),
         3 => Some(api::RouteDistinguisher {
-            rd: Some(Rd::IpAddress(api::RouteDistinguisherIpAddress { admin: some_addr(r), assigned: rnd_u32(r) })),
+            rd: Some(Rd::IpAddress(api::RouteDistinguisherIpAddress {
+                admin: some_addr(r),
+                assigned: rnd_u32(r),
+            })),
         }),
         4 => Some(api::RouteDistinguisher {
-            rd: Some(Rd::FourOctetAsn(api::RouteDistinguisherFourOctetAsn { admin: rnd_u32(r), assigned: rnd_u32(r) })),
+            rd: Some(Rd::FourOctetAsn(api::RouteDistinguisherFourOctetAsn {
+                admin: rnd_u32(r),
+                assigned: rnd_u32(r),
+            })),
         }),
         _ => return,
     };
 }
 
 fn weird_len(r: &mut Rng) -> u32 {
-    *r.pick(&[0u32, 1, 24, 32, 33, 40, 64, 128, 129, 200, 255, 256, 256 + 24, 65536 + 8, u32::MAX])
+    *r.pick(&[
+        0u32,
+        1,
+        24,
+        32,
+        33,
+        40,
+        64,
+        128,
+        129,
+        200,
+        255,
+        256,
+        256 + 24,
+        65536 + 8,
+        u32::MAX,
+    ])
 }
 
 fn mutate_rules(rules: &mut Vec<api::FlowSpecRule>, r: &mut Rng) {
@@ -3023,7 +3666,10 @@ fn mutate_rules(rules: &mut Vec<api::FlowSpecRule>, r: &mut Rng) {
         0 => rules.clear(),
         1 => rules.push(api::FlowSpecRule { rule: None }),
         2 => rules.push(api::FlowSpecRule {
-            rule: Some(Rule::Mac(api::FlowSpecMac { r#type: 15, address: "aa:bb:cc:dd:ee:ff".into() })),
+            rule: Some(Rule::Mac(api::FlowSpecMac {
+                r#type: 15,
+                address: "aa:bb:cc:dd:ee:ff".into(),
+            })),
         }),
         3 => rules.push(api::FlowSpecRule {
             rule: Some(Rule::Component(api::FlowSpecComponent {
@@ -3054,15 +3700,22 @@ fn mutate_rules(rules: &mut Vec<api::FlowSpecRule>, r: &mut Rng) {
                         if let Some(it) = c.items.first_mut() {
                             it.op |= 0x80; // end-of-list bit on a non-final item
                         }
-                        c.items.push(api::FlowSpecComponentItem { op: 0x81, value: 7 });
+                        c.items
+                            .push(api::FlowSpecComponentItem { op: 0x81, value: 7 });
                     }
                     3 => {
                         if let Some(it) = c.items.last_mut() {
-                            it.op = *r.pick(&[0x30u32 | 0x81, 0x100 | 0x81, 0xffff_ff81, 0x08 | 0x81]);
+                            it.op =
+                                *r.pick(&[0x30u32 | 0x81, 0x100 | 0x81, 0xffff_ff81, 0x08 | 0x81]);
                         }
                     }
                     _ => {
-                        c.items = (0..300).map(|_| api::FlowSpecComponentItem { op: 0x01, value: u64::MAX }).collect();
+                        c.items = (0..300)
+                            .map(|_| api::FlowSpecComponentItem {
+                                op: 0x01,
+                                value: u64::MAX,
+                            })
+                            .collect();
                         if let Some(it) = c.items.last_mut() {
                             it.op = 0x81;
                         }
@@ -3077,7 +3730,10 @@ fn mutate_rules(rules: &mut Vec<api::FlowSpecRule>, r: &mut Rng) {
 fn mutate_esi(e: &mut Option<api::EthernetSegmentIdentifier>, r: &mut Rng) {
     *e = match r.below(4) {
         0 => None,
-        1 => Some(api::EthernetSegmentIdentifier { r#type: rnd_u32(r), value: r.bytes(9) }),
+        1 => Some(api::EthernetSegmentIdentifier {
+            r#type: rnd_u32(r),
+            value: r.bytes(9),
+        }),
         2 => Some(api::EthernetSegmentIdentifier {
             r#type: 0,
             value: {
@@ -3126,13 +3782,21 @@ fn mutate_api_nlri(n: &mut api::Nlri, r: &mut Rng) {
             0 => p.prefix_len = weird_len(r),
             1 => p.prefix = some_addr(r),
             2 => p.labels.clear(),
-            _ => p.labels = (0..*r.pick(&[1usize, 2, 12, 90])).map(|_| rnd_u32(r)).collect(),
+            _ => {
+                p.labels = (0..*r.pick(&[1usize, 2, 12, 90]))
+                    .map(|_| rnd_u32(r))
+                    .collect()
+            }
         },
         N::LabeledVpnIpPrefix(p) => match r.below(5) {
             0 => p.prefix_len = weird_len(r),
             1 => p.prefix = some_addr(r),
             2 => p.labels.clear(),
-            3 => p.labels = (0..*r.pick(&[1usize, 2, 12, 90])).map(|_| rnd_u32(r)).collect(),
+            3 => {
+                p.labels = (0..*r.pick(&[1usize, 2, 12, 90]))
+                    .map(|_| rnd_u32(r))
+                    .collect()
+            }
             _ => mutate_rd(&mut p.rd, r),
         },
         N::FlowSpec(f) => mutate_rules(&mut f.rules, r),
@@ -3163,7 +3827,11 @@ fn mutate_api_nlri(n: &mut api::Nlri, r: &mut Rng) {
             }
             3 => e.ip_address = some_addr(r),
             4 => e.labels.clear(),
-            _ => e.labels = (0..*r.pick(&[1usize, 2, 3, 40])).map(|_| *r.pick(&[5u32, 1 << 24, u32::MAX])).collect(),
+            _ => {
+                e.labels = (0..*r.pick(&[1usize, 2, 3, 40]))
+                    .map(|_| *r.pick(&[5u32, 1 << 24, u32::MAX]))
+                    .collect()
+            }
         },
         N::EvpnMulticast(e) => match r.below(2) {
             0 => mutate_rd(&mut e.rd, r),
@@ -3187,12 +3855,14 @@ fn mutate_api_nlri(n: &mut api::Nlri, r: &mut Rng) {
             1 => m.rt = Some(api::RouteTarget { rt: None }),
             _ => {
                 m.rt = Some(api::RouteTarget {
-                    rt: Some(api::route_target::Rt::TwoOctetAsSpecific(api::TwoOctetAsSpecificExtended {
-                        is_transitive: r.bool(),
-                        sub_type: *r.pick(&[2u32, 3, 258]),
-                        asn: rnd_u32(r),
-                        local_admin: rnd_u32(r),
-                    })),
+                    rt: Some(api::route_target::Rt::TwoOctetAsSpecific(
+                        api::TwoOctetAsSpecificExtended {
+                            is_transitive: r.bool(),
+                            sub_type: *r.pick(&[2u32, 3, 258]),
+                            asn: rnd_u32(r),
+                            local_admin: rnd_u32(r),
+                        },
+                    )),
                 })
             }
         },
@@ -3253,7 +3923,8 @@ fn mutate_api_nlri(n: &mut api::Nlri, r: &mut Rng) {
                             if r.bool() {
                                 mutate_node(&mut n.local_node, r)
                             } else if let Some(d) = n.prefix_descriptor.as_mut() {
-                                d.ip_reachability = vec![format!("{}/{}", some_addr(r), weird_len(r)), "x".into()];
+                                d.ip_reachability =
+                                    vec![format!("{}/{}", some_addr(r), weird_len(r)), "x".into()];
                                 d.ospf_route_type = *r.pick(&[0i32, 6, 7, 256 + 1, -1]);
                             }
                         }
@@ -3261,15 +3932,20 @@ fn mutate_api_nlri(n: &mut api::Nlri, r: &mut Rng) {
                             if r.bool() {
                                 mutate_node(&mut n.local_node, r)
                             } else if let Some(d) = n.prefix_descriptor.as_mut() {
-                                d.ip_reachability = vec![format!("{}/{}", some_addr(r), weird_len(r))];
+                                d.ip_reachability =
+                                    vec![format!("{}/{}", some_addr(r), weird_len(r))];
                             }
                         }
                         L::Srv6Sid(n) => {
                             if r.bool() {
                                 mutate_node(&mut n.local_node, r)
                             } else {
-                                n.srv6_sid_information = Some(api::LsSrv6SidInformation { sids: vec![some_addr(r), some_addr(r)] });
-                                n.multi_topo_id = Some(api::LsMultiTopologyIdentifier { multi_topo_ids: vec![rnd_u32(r)] });
+                                n.srv6_sid_information = Some(api::LsSrv6SidInformation {
+                                    sids: vec![some_addr(r), some_addr(r)],
+                                });
+                                n.multi_topo_id = Some(api::LsMultiTopologyIdentifier {
+                                    multi_topo_ids: vec![rnd_u32(r)],
+                                });
                             }
                         }
                     }
@@ -3298,7 +3974,13 @@ fn host_rule(bad: &mut Vec<(&'static str, String)>, what: &str, octets: &[u8], m
 fn validate_nlri(fam: Family, n: &Nlri) -> Vec<(&'static str, String)> {
     let mut bad: Vec<(&'static str, String)> = Vec::new();
     if !nlri_variant_families(n).contains(&fam) {
-        bad.push(("family-mismatch", format!("an NLRI of another family is accepted for {}", fam_name(fam))));
+        bad.push((
+            "family-mismatch",
+            format!(
+                "an NLRI of another family is accepted for {}",
+                fam_name(fam)
+            ),
+        ));
         return bad;
     }
     let ops_ok = |ops: &Vec<packet::flowspec::Op>| -> Option<String> {
@@ -3308,7 +3990,10 @@ fn validate_nlri(fam: Family, n: &Nlri) -> Vec<(&'static str, String)> {
         for (i, op) in ops.iter().enumerate() {
             let last = i == ops.len() - 1;
             if op.bits & 0x30 != 0 {
-                return Some(format!("operator byte {:#04x} carries length bits", op.bits));
+                return Some(format!(
+                    "operator byte {:#04x} carries length bits",
+                    op.bits
+                ));
             }
             if last != (op.bits & 0x80 != 0) {
                 return Some("end-of-list bit not exactly on the last operator".into());
@@ -3316,18 +4001,30 @@ fn validate_nlri(fam: Family, n: &Nlri) -> Vec<(&'static str, String)> {
         }
         None
     };
-    let mut fs4 = |comps: &Vec<packet::flowspec::FlowspecV4Component>, bad: &mut Vec<(&'static str, String)>| {
+    let mut fs4 = |comps: &Vec<packet::flowspec::FlowspecV4Component>,
+                   bad: &mut Vec<(&'static str, String)>| {
         use packet::flowspec::FlowspecV4Component as C;
         for c in comps {
             match c {
                 C::DstPrefix(p) | C::SrcPrefix(p) => {
                     if p.mask > 32 {
-                        bad.push(("mask-range", format!("flowspec IPv4 prefix length {}", p.mask)));
+                        bad.push((
+                            "mask-range",
+                            format!("flowspec IPv4 prefix length {}", p.mask),
+                        ));
                     }
                     host_rule(bad, "flowspec IPv4 prefix", &p.addr.octets(), p.mask);
                 }
-                C::Protocol(o) | C::Port(o) | C::DstPort(o) | C::SrcPort(o) | C::IcmpType(o) | C::IcmpCode(o)
-                | C::TcpFlags(o) | C::PacketLen(o) | C::Dscp(o) | C::Fragment(o) => {
+                C::Protocol(o)
+                | C::Port(o)
+                | C::DstPort(o)
+                | C::SrcPort(o)
+                | C::IcmpType(o)
+                | C::IcmpCode(o)
+                | C::TcpFlags(o)
+                | C::PacketLen(o)
+                | C::Dscp(o)
+                | C::Fragment(o) => {
                     if let Some(e) = ops_ok(o) {
                         bad.push(("flowspec-operators", e));
                     }
@@ -3335,18 +4032,36 @@ fn validate_nlri(fam: Family, n: &Nlri) -> Vec<(&'static str, String)> {
             }
         }
     };
-    let mut fs6 = |comps: &Vec<packet::flowspec::FlowspecV6Component>, bad: &mut Vec<(&'static str, String)>| {
+    let mut fs6 = |comps: &Vec<packet::flowspec::FlowspecV6Component>,
+                   bad: &mut Vec<(&'static str, String)>| {
         use packet::flowspec::FlowspecV6Component as C;
         for c in comps {
             match c {
                 C::DstPrefix { prefix, .. } | C::SrcPrefix { prefix, .. } => {
                     if prefix.mask > 128 {
-                        bad.push(("mask-range", format!("flowspec IPv6 prefix length {}", prefix.mask)));
+                        bad.push((
+                            "mask-range",
+                            format!("flowspec IPv6 prefix length {}", prefix.mask),
+                        ));
                     }
-                    host_rule(bad, "flowspec IPv6 prefix", &prefix.addr.octets(), prefix.mask);
+                    host_rule(
+                        bad,
+                        "flowspec IPv6 prefix",
+                        &prefix.addr.octets(),
+                        prefix.mask,
+                    );
                 }
-                C::NextHeader(o) | C::Port(o) | C::DstPort(o) | C::SrcPort(o) | C::IcmpType(o) | C::IcmpCode(o)
-                | C::TcpFlags(o) | C::PacketLen(o) | C::Dscp(o) | C::Fragment(o) | C::FlowLabel(o) => {
+                C::NextHeader(o)
+                | C::Port(o)
+                | C::DstPort(o)
+                | C::SrcPort(o)
+                | C::IcmpType(o)
+                | C::IcmpCode(o)
+                | C::TcpFlags(o)
+                | C::PacketLen(o)
+                | C::Dscp(o)
+                | C::Fragment(o)
+                | C::FlowLabel(o) => {
                     if let Some(e) = ops_ok(o) {
                         bad.push(("flowspec-operators", e));
                     }
@@ -3369,11 +4084,25 @@ fn validate_nlri(fam: Family, n: &Nlri) -> Vec<(&'static str, String)> {
         }
         Nlri::LabeledV4(l) => {
             if l.prefix.mask > 32 {
-                bad.push(("mask-range", format!("labeled IPv4 prefix length {}", l.prefix.mask)));
+                bad.push((
+                    "mask-range",
+                    format!("labeled IPv4 prefix length {}", l.prefix.mask),
+                ));
             }
-            host_rule(&mut bad, "labeled IPv4 prefix", &l.prefix.addr.octets(), l.prefix.mask);
+            host_rule(
+                &mut bad,
+                "labeled IPv4 prefix",
+                &l.prefix.addr.octets(),
+                l.prefix.mask,
+            );
             if l.labels.labels().len() * 24 + 0 + l.prefix.mask as usize > 255 {
-                bad.push(("nlri-length-overflow", format!("{} labels do not fit the one-octet NLRI bit length", l.labels.labels().len())));
+                bad.push((
+                    "nlri-length-overflow",
+                    format!(
+                        "{} labels do not fit the one-octet NLRI bit length",
+                        l.labels.labels().len()
+                    ),
+                ));
             }
             if l.labels.labels().is_empty() {
                 bad.push(("empty-label-stack", "labeled NLRI without a label".into()));
@@ -3381,11 +4110,25 @@ fn validate_nlri(fam: Family, n: &Nlri) -> Vec<(&'static str, String)> {
         }
         Nlri::LabeledV6(l) => {
             if l.prefix.mask > 128 {
-                bad.push(("mask-range", format!("labeled IPv6 prefix length {}", l.prefix.mask)));
+                bad.push((
+                    "mask-range",
+                    format!("labeled IPv6 prefix length {}", l.prefix.mask),
+                ));
             }
-            host_rule(&mut bad, "labeled IPv6 prefix", &l.prefix.addr.octets(), l.prefix.mask);
+            host_rule(
+                &mut bad,
+                "labeled IPv6 prefix",
+                &l.prefix.addr.octets(),
+                l.prefix.mask,
+            );
             if l.labels.labels().len() * 24 + 0 + l.prefix.mask as usize > 255 {
-                bad.push(("nlri-length-overflow", format!("{} labels do not fit the one-octet NLRI bit length", l.labels.labels().len())));
+                bad.push((
+                    "nlri-length-overflow",
+                    format!(
+                        "{} labels do not fit the one-octet NLRI bit length",
+                        l.labels.labels().len()
+                    ),
+                ));
             }
             if l.labels.labels().is_empty() {
                 bad.push(("empty-label-stack", "labeled NLRI without a label".into()));
@@ -3393,11 +4136,25 @@ fn validate_nlri(fam: Family, n: &Nlri) -> Vec<(&'static str, String)> {
         }
         Nlri::VpnV4(l) => {
             if l.prefix.mask > 32 {
-                bad.push(("mask-range", format!("VPNv4 prefix length {}", l.prefix.mask)));
+                bad.push((
+                    "mask-range",
+                    format!("VPNv4 prefix length {}", l.prefix.mask),
+                ));
             }
-            host_rule(&mut bad, "VPNv4 prefix", &l.prefix.addr.octets(), l.prefix.mask);
+            host_rule(
+                &mut bad,
+                "VPNv4 prefix",
+                &l.prefix.addr.octets(),
+                l.prefix.mask,
+            );
             if l.labels.labels().len() * 24 + 64 + l.prefix.mask as usize > 255 {
-                bad.push(("nlri-length-overflow", format!("{} labels do not fit the one-octet NLRI bit length", l.labels.labels().len())));
+                bad.push((
+                    "nlri-length-overflow",
+                    format!(
+                        "{} labels do not fit the one-octet NLRI bit length",
+                        l.labels.labels().len()
+                    ),
+                ));
             }
             if l.labels.labels().is_empty() {
                 bad.push(("empty-label-stack", "VPN NLRI without a label".into()));
@@ -3405,11 +4162,25 @@ fn validate_nlri(fam: Family, n: &Nlri) -> Vec<(&'static str, String)> {
         }
         Nlri::VpnV6(l) => {
             if l.prefix.mask > 128 {
-                bad.push(("mask-range", format!("VPNv6 prefix length {}", l.prefix.mask)));
+                bad.push((
+                    "mask-range",
+                    format!("VPNv6 prefix length {}", l.prefix.mask),
+                ));
             }
-            host_rule(&mut bad, "VPNv6 prefix", &l.prefix.addr.octets(), l.prefix.mask);
+            host_rule(
+                &mut bad,
+                "VPNv6 prefix",
+                &l.prefix.addr.octets(),
+                l.prefix.mask,
+            );
             if l.labels.labels().len() * 24 + 64 + l.prefix.mask as usize > 255 {
-                bad.push(("nlri-length-overflow", format!("{} labels do not fit the one-octet NLRI bit length", l.labels.labels().len())));
+                bad.push((
+                    "nlri-length-overflow",
+                    format!(
+                        "{} labels do not fit the one-octet NLRI bit length",
+                        l.labels.labels().len()
+                    ),
+                ));
             }
             if l.labels.labels().is_empty() {
                 bad.push(("empty-label-stack", "VPN NLRI without a label".into()));
@@ -3429,7 +4200,10 @@ fn validate_nlri(fam: Family, n: &Nlri) -> Vec<(&'static str, String)> {
             let maxbits: u8 = if v6 { 128 } else { 32 };
             let mut af = |a: &IpAddr, what: &str, bad: &mut Vec<(&'static str, String)>| {
                 if a.is_ipv6() != v6 {
-                    bad.push(("address-family-mismatch", format!("MUP {} {} does not belong to {}", what, a, fam_name(fam))));
+                    bad.push((
+                        "address-family-mismatch",
+                        format!("MUP {} {} does not belong to {}", what, a, fam_name(fam)),
+                    ));
                 }
             };
             match m {
@@ -3438,7 +4212,12 @@ fn validate_nlri(fam: Family, n: &Nlri) -> Vec<(&'static str, String)> {
                     if x.prefix_len > maxbits {
                         bad.push(("mask-range", format!("MUP prefix length {}", x.prefix_len)));
                     }
-                    host_rule(&mut bad, "MUP ISD prefix", &oct(&x.prefix_addr), x.prefix_len)
+                    host_rule(
+                        &mut bad,
+                        "MUP ISD prefix",
+                        &oct(&x.prefix_addr),
+                        x.prefix_len,
+                    )
                 }
                 M::DirectSegmentDiscovery(x) => af(&x.address, "address", &mut bad),
                 M::Type1SessionTransformed(x) => {
@@ -3450,15 +4229,32 @@ fn validate_nlri(fam: Family, n: &Nlri) -> Vec<(&'static str, String)> {
                     if x.prefix_len > maxbits {
                         bad.push(("mask-range", format!("MUP prefix length {}", x.prefix_len)));
                     }
-                    host_rule(&mut bad, "MUP T1ST prefix", &oct(&x.prefix_addr), x.prefix_len)
+                    host_rule(
+                        &mut bad,
+                        "MUP T1ST prefix",
+                        &oct(&x.prefix_addr),
+                        x.prefix_len,
+                    )
                 }
                 M::Type2SessionTransformed(x) => {
                     af(&x.endpoint_address, "endpoint", &mut bad);
-                    if x.endpoint_address_length < maxbits || x.endpoint_address_length > maxbits + 32 {
-                        bad.push(("mup-endpoint-length", format!("MUP T2ST endpoint address length {}", x.endpoint_address_length)));
+                    if x.endpoint_address_length < maxbits
+                        || x.endpoint_address_length > maxbits + 32
+                    {
+                        bad.push((
+                            "mup-endpoint-length",
+                            format!(
+                                "MUP T2ST endpoint address length {}",
+                                x.endpoint_address_length
+                            ),
+                        ));
                     } else {
                         let teid_bytes = ((x.endpoint_address_length - maxbits) as u32).div_ceil(8);
-                        let carried = if teid_bytes == 0 { 0 } else { u32::MAX << (32 - 8 * teid_bytes) };
+                        let carried = if teid_bytes == 0 {
+                            0
+                        } else {
+                            u32::MAX << (32 - 8 * teid_bytes)
+                        };
                         if x.teid & !carried != 0 {
                             bad.push(("mup-endpoint-length", format!("MUP T2ST TEID {:#x} has bits outside the {} TEID octets its length announces", x.teid, teid_bytes)));
                         }
@@ -3470,7 +4266,10 @@ fn validate_nlri(fam: Family, n: &Nlri) -> Vec<(&'static str, String)> {
             use packet::evpn::EvpnNlri as E;
             let chk = |l: u32, bad: &mut Vec<(&'static str, String)>| {
                 if l >= 1 << 24 {
-                    bad.push(("label-range", format!("EVPN label {} does not fit 3 octets", l)));
+                    bad.push((
+                        "label-range",
+                        format!("EVPN label {} does not fit 3 octets", l),
+                    ));
                 }
             };
             match e {
@@ -3484,7 +4283,13 @@ fn validate_nlri(fam: Family, n: &Nlri) -> Vec<(&'static str, String)> {
                 E::EthernetIpPrefix(x) => {
                     chk(x.label, &mut bad);
                     if x.ip_prefix.is_ipv6() != x.gateway_ip.is_ipv6() {
-                        bad.push(("address-family-mismatch", format!("EVPN type-5 prefix {} with gateway {}", x.ip_prefix, x.gateway_ip)));
+                        bad.push((
+                            "address-family-mismatch",
+                            format!(
+                                "EVPN type-5 prefix {} with gateway {}",
+                                x.ip_prefix, x.gateway_ip
+                            ),
+                        ));
                     }
                 }
                 _ => {}
@@ -3496,7 +4301,13 @@ fn validate_nlri(fam: Family, n: &Nlri) -> Vec<(&'static str, String)> {
         if let Ok(b) = guard(|| n.encode_to_bytes()) {
             // 2-octet flowspec length prefix: 0xf000 | 12-bit length
             if b.len() > 2 + 4095 {
-                bad.push(("nlri-length-overflow", format!("flowspec NLRI of {} octets does not fit the 12-bit length", b.len() - 2)));
+                bad.push((
+                    "nlri-length-overflow",
+                    format!(
+                        "flowspec NLRI of {} octets does not fit the 12-bit length",
+                        b.len() - 2
+                    ),
+                ));
             }
         }
     }
@@ -3517,7 +4328,10 @@ fn part_b_nlri(ctx: &mut Ctx, m: api::Nlri, fam: Family, how: &str) {
     ctx.rep.eval();
     let m_s = trunc(format!("{:?}", m));
     let fname = fam_name(fam);
-    ctx.rep.count(&format!("b:nlri-in:{}", how.split('/').next().unwrap_or("")));
+    ctx.rep.count(&format!(
+        "b:nlri-in:{}",
+        how.split('/').next().unwrap_or("")
+    ));
     let n = match guard(|| net_from_api(m.clone(), fam)) {
         Err(p) => {
             let w = Json::obj(vec![("api", Json::s(m_s)), ("family", Json::s(fname))]);
@@ -3527,7 +4341,10 @@ fn part_b_nlri(ctx: &mut Ctx, m: api::Nlri, fam: Family, how: &str) {
         Ok(Err(_)) => {
             ctx.rep.count("b:nlri-rejected");
             if let Some(k) = how.strip_prefix("boundary/") {
-                ctx.rep.count(&format!("b:boundary:rejected:{}", k.split(':').next().unwrap_or("")));
+                ctx.rep.count(&format!(
+                    "b:boundary:rejected:{}",
+                    k.split(':').next().unwrap_or("")
+                ));
             }
             return;
         }
@@ -3536,21 +4353,31 @@ fn part_b_nlri(ctx: &mut Ctx, m: api::Nlri, fam: Family, how: &str) {
     ctx.rep.count("b:nlri-accepted");
     ctx.rep.count(&format!("b:nlri-accepted:{}", fname));
     if let Some(k) = how.strip_prefix("boundary/") {
-        ctx.rep.count(&format!("b:boundary:accepted:{}", k.split(':').next().unwrap_or("")));
+        ctx.rep.count(&format!(
+            "b:boundary:accepted:{}",
+            k.split(':').next().unwrap_or("")
+        ));
     }
-    ctx.rep.nontrivial(fnv64(format!("{}|{}", fname, m_s).as_bytes()));
+    ctx.rep
+        .nontrivial(fnv64(format!("{}|{}", fname, m_s).as_bytes()));
     let bad = validate_nlri(fam, &n);
     let wire_valid = bad.is_empty();
     let attrs = Arc::new(base_attrs());
     let ur = use_value(ctx, fam, &n, nh_for(fam), &attrs, wire_valid);
     if how.starts_with("boundary/") && wire_valid && ur.panics.is_empty() && ur.wire.is_none() {
         // encoded by encode_to / encode_to_bytes under guard and decoded back equal
-        ctx.rep.count("b:boundary:accepted-encoded-and-decoded-equal");
+        ctx.rep
+            .count("b:boundary:accepted-encoded-and-decoded-equal");
     }
     let consequences: Vec<String> = {
         let mut v: Vec<String> = Vec::new();
         for (stage, p) in ur.panics.iter() {
-            let s = format!("{} panics at {} ({})", stage.split('/').next().unwrap_or(""), p.location, panic_class(&p.message));
+            let s = format!(
+                "{} panics at {} ({})",
+                stage.split('/').next().unwrap_or(""),
+                p.location,
+                panic_class(&p.message)
+            );
             if !v.contains(&s) {
                 v.push(s);
             }
@@ -3558,7 +4385,10 @@ fn part_b_nlri(ctx: &mut Ctx, m: api::Nlri, fam: Family, how: &str) {
         v
     };
     for (stage, _) in ur.panics.iter() {
-        ctx.rep.count(&format!("b:use-panic:{}", stage.split('/').next().unwrap_or("")));
+        ctx.rep.count(&format!(
+            "b:use-panic:{}",
+            stage.split('/').next().unwrap_or("")
+        ));
     }
     let wit = |extra: Vec<(&str, Json)>| {
         let mut v = vec![
@@ -3579,7 +4409,11 @@ fn part_b_nlri(ctx: &mut Ctx, m: api::Nlri, fam: Family, how: &str) {
             &format!(
                 "net_from_api accepts an NLRI the wire decoder would reject: {}{}",
                 detail,
-                if consequences.is_empty() { String::new() } else { format!("; used like add_path uses it: {}", consequences.join(", ")) }
+                if consequences.is_empty() {
+                    String::new()
+                } else {
+                    format!("; used like add_path uses it: {}", consequences.join(", "))
+                }
             ),
             wit(vec![("rule", Json::s(*rule))]),
         );
@@ -3588,14 +4422,22 @@ fn part_b_nlri(ctx: &mut Ctx, m: api::Nlri, fam: Family, how: &str) {
         if let Some((stage, p)) = ur.panics.first() {
             ctx.rep.violation(
                 &format!("C17/unsafe-accept/{}", p.location),
-                &format!("an NLRI accepted by net_from_api panics in {} at {} ({})", stage, p.location, trunc(p.message.clone())),
+                &format!(
+                    "an NLRI accepted by net_from_api panics in {} at {} ({})",
+                    stage,
+                    p.location,
+                    trunc(p.message.clone())
+                ),
                 wit(vec![("stage", Json::s(stage.clone()))]),
             );
         } else if let Some(why) = ur.wire {
             // written onto the wire, the decoder does not give the same NLRI back
             ctx.rep.violation(
                 &format!("C17/invariant/nlri/wire-rejects/{}", fname),
-                &format!("an NLRI accepted by net_from_api is not a value the wire decoder produces: {}", trunc(why.clone())),
+                &format!(
+                    "an NLRI accepted by net_from_api is not a value the wire decoder produces: {}",
+                    trunc(why.clone())
+                ),
                 wit(vec![("wire", Json::s(trunc(why)))]),
             );
         }
@@ -3605,7 +4447,10 @@ fn part_b_nlri(ctx: &mut Ctx, m: api::Nlri, fam: Family, how: &str) {
 fn run_part_b_nlri(ctx: &mut Ctx, r: &mut Rng, n: u64) {
     // directed
     let pfx = |s: &str, l: u32| api::Nlri {
-        nlri: Some(api::nlri::Nlri::Prefix(api::IpAddressPrefix { prefix: s.into(), prefix_len: l })),
+        nlri: Some(api::nlri::Nlri::Prefix(api::IpAddressPrefix {
+            prefix: s.into(),
+            prefix_len: l,
+        })),
     };
     run_part_b_boundary(ctx);
     part_b_nlri(ctx, api::Nlri { nlri: None }, Family::IPV4, "directed");
@@ -3618,7 +4463,13 @@ fn run_part_b_nlri(ctx: &mut Ctx, r: &mut Rng, n: u64) {
     part_b_nlri(
         ctx,
         api::Nlri {
-            nlri: Some(api::nlri::Nlri::LabeledPrefix(api::LabeledIpAddressPrefix { labels: vec![100], prefix_len: 40, prefix: "10.0.0.0".into() })),
+            nlri: Some(api::nlri::Nlri::LabeledPrefix(
+                api::LabeledIpAddressPrefix {
+                    labels: vec![100],
+                    prefix_len: 40,
+                    prefix: "10.0.0.0".into(),
+                },
+            )),
         },
         Family::IPV4_MPLS,
         "directed",
@@ -3626,7 +4477,13 @@ fn run_part_b_nlri(ctx: &mut Ctx, r: &mut Rng, n: u64) {
     part_b_nlri(
         ctx,
         api::Nlri {
-            nlri: Some(api::nlri::Nlri::LabeledPrefix(api::LabeledIpAddressPrefix { labels: vec![], prefix_len: 8, prefix: "10.0.0.0".into() })),
+            nlri: Some(api::nlri::Nlri::LabeledPrefix(
+                api::LabeledIpAddressPrefix {
+                    labels: vec![],
+                    prefix_len: 8,
+                    prefix: "10.0.0.0".into(),
+                },
+            )),
         },
         Family::IPV4_MPLS,
         "directed",
@@ -3709,7 +4566,20 @@ struct ScCase {
 fn build_sc_case(ctx: &mut Ctx, r: &mut Rng, fam: Family) -> Option<ScCase> {
     // a wire-decoded route of that family with a few generated attributes
     let mut gens: Vec<GenAttr> = Vec::new();
-    let kinds = ["med", "local_pref", "community", "extcom", "large", "aggregator", "atomic", "aigp", "as_path", "origin", "originator", "cluster"];
+    let kinds = [
+        "med",
+        "local_pref",
+        "community",
+        "extcom",
+        "large",
+        "aggregator",
+        "atomic",
+        "aigp",
+        "as_path",
+        "origin",
+        "originator",
+        "cluster",
+    ];
     let nk = r.range(0, 4);
     for _ in 0..nk {
         let k = *r.pick(&kinds);
@@ -3743,7 +4613,8 @@ fn build_sc_case(ctx: &mut Ctx, r: &mut Rng, fam: Family) -> Option<ScCase> {
     match guard(|| net_from_api(api_nlri.clone(), fam)) {
         Ok(Ok(b)) if b == nlri => {}
         _ => {
-            ctx.rep.count("c:skip-nlri-not-roundtripping(reported by part a)");
+            ctx.rep
+                .count("c:skip-nlri-not-roundtripping(reported by part a)");
             return None;
         }
     }
@@ -3752,7 +4623,9 @@ fn build_sc_case(ctx: &mut Ctx, r: &mut Rng, fam: Family) -> Option<ScCase> {
     let mut pattrs: Vec<api::Attribute> = Vec::new();
     let mut expect: Vec<api::Attribute> = Vec::new();
     for a in d.attrs.iter() {
-        if (a.code() == Attribute::ORIGIN && omit_origin) || (a.code() == Attribute::AS_PATH && omit_as_path) {
+        if (a.code() == Attribute::ORIGIN && omit_origin)
+            || (a.code() == Attribute::AS_PATH && omit_as_path)
+        {
             continue;
         }
         let m = guard(|| attr_to_api(a)).ok()?;
@@ -3813,12 +4686,21 @@ fn build_sc_case(ctx: &mut Ctx, r: &mut Rng, fam: Family) -> Option<ScCase> {
     })
 }
 
-fn list_global(rt: &tokio::runtime::Runtime, svc: &GrpcService, fam: Family) -> Result<Vec<api::Destination>, String> {
+fn list_global(
+    rt: &tokio::runtime::Runtime,
+    svc: &GrpcService,
+    fam: Family,
+) -> Result<Vec<api::Destination>, String> {
     list_global_opt(rt, svc, fam, false)
 }
 
 /// `binary`: also ask for `nlri_binary`, which makes the real handler run the NLRI wire encoder
-fn list_global_opt(rt: &tokio::runtime::Runtime, svc: &GrpcService, fam: Family, binary: bool) -> Result<Vec<api::Destination>, String> {
+fn list_global_opt(
+    rt: &tokio::runtime::Runtime,
+    svc: &GrpcService,
+    fam: Family,
+    binary: bool,
+) -> Result<Vec<api::Destination>, String> {
     rt.block_on(async {
         let req = tonic::Request::new(api::ListPathRequest {
             table_type: api::TableType::Global as i32,
@@ -3826,7 +4708,10 @@ fn list_global_opt(rt: &tokio::runtime::Runtime, svc: &GrpcService, fam: Family,
             enable_nlri_binary: binary,
             ..Default::default()
         });
-        let resp = svc.list_path(req).await.map_err(|e| format!("list_path status {:?}: {}", e.code(), e.message()))?;
+        let resp = svc
+            .list_path(req)
+            .await
+            .map_err(|e| format!("list_path status {:?}: {}", e.code(), e.message()))?;
         let mut stream = resp.into_inner();
         let mut out = Vec::new();
         while let Some(item) = stream.next().await {
@@ -3843,12 +4728,20 @@ fn list_global_opt(rt: &tokio::runtime::Runtime, svc: &GrpcService, fam: Family,
     })
 }
 
-fn part_c_case(ctx: &mut Ctx, rt: &tokio::runtime::Runtime, svc: &GrpcService, case: ScCase) -> bool {
+fn part_c_case(
+    ctx: &mut Ctx,
+    rt: &tokio::runtime::Runtime,
+    svc: &GrpcService,
+    case: ScCase,
+) -> bool {
     ctx.rep.eval();
     let fname = fam_name(case.fam);
     ctx.rep.count(&format!("c:submitted:{}", fname));
     let wit = |extra: Vec<(&str, Json)>| {
-        let mut v = vec![("family", Json::s(fname.clone())), ("submitted", Json::s(case.desc.clone()))];
+        let mut v = vec![
+            ("family", Json::s(fname.clone())),
+            ("submitted", Json::s(case.desc.clone())),
+        ];
         v.extend(extra);
         Json::obj(v)
     };
@@ -3872,7 +4765,11 @@ fn part_c_case(ctx: &mut Ctx, rt: &tokio::runtime::Runtime, svc: &GrpcService, c
         Ok(Err(st)) => {
             ctx.rep.violation(
                 &format!("C17/store-show/{}/rejected", fname),
-                &format!("add_path rejects a path made of values that convert individually: {:?} {}", st.code(), st.message()),
+                &format!(
+                    "add_path rejects a path made of values that convert individually: {:?} {}",
+                    st.code(),
+                    st.message()
+                ),
                 wit(vec![]),
             );
             return true;
@@ -3888,7 +4785,11 @@ fn part_c_case(ctx: &mut Ctx, rt: &tokio::runtime::Runtime, svc: &GrpcService, c
             return false;
         }
         Ok(Err(e)) => {
-            ctx.rep.violation(&format!("C17/store-show/{}/list-error", fname), &e, wit(vec![]));
+            ctx.rep.violation(
+                &format!("C17/store-show/{}/list-error", fname),
+                &e,
+                wit(vec![]),
+            );
             return false;
         }
         Ok(Ok(l)) => l,
@@ -3897,7 +4798,10 @@ fn part_c_case(ctx: &mut Ctx, rt: &tokio::runtime::Runtime, svc: &GrpcService, c
     if paths.len() != 1 {
         ctx.rep.violation(
             &format!("C17/store-show/{}/path-count", fname),
-            &format!("after one add_path on an empty table list_path shows {} paths", paths.len()),
+            &format!(
+                "after one add_path on an empty table list_path shows {} paths",
+                paths.len()
+            ),
             wit(vec![("listed", Json::s(trunc(format!("{:?}", listed))))]),
         );
     } else {
@@ -3913,7 +4817,10 @@ fn part_c_case(ctx: &mut Ctx, rt: &tokio::runtime::Runtime, svc: &GrpcService, c
         if lp.identifier != case.path.identifier {
             ctx.rep.violation(
                 &format!("C17/store-show/{}/identifier", fname),
-                &format!("submitted path identifier {} is listed as {}", case.path.identifier, lp.identifier),
+                &format!(
+                    "submitted path identifier {} is listed as {}",
+                    case.path.identifier, lp.identifier
+                ),
                 wit(vec![("listed", Json::s(listed_s.clone()))]),
             );
         }
@@ -3925,15 +4832,37 @@ fn part_c_case(ctx: &mut Ctx, rt: &tokio::runtime::Runtime, svc: &GrpcService, c
             );
         }
         // attributes as multisets, next-hop carriers apart
-        let is_nh = |a: &api::Attribute| matches!(a.attr, Some(api::attribute::Attr::NextHop(_)) | Some(api::attribute::Attr::MpReach(_)));
-        let mut got: Vec<String> = lp.pattrs.iter().filter(|a| !is_nh(a)).map(attr_key).collect();
+        let is_nh = |a: &api::Attribute| {
+            matches!(
+                a.attr,
+                Some(api::attribute::Attr::NextHop(_)) | Some(api::attribute::Attr::MpReach(_))
+            )
+        };
+        let mut got: Vec<String> = lp
+            .pattrs
+            .iter()
+            .filter(|a| !is_nh(a))
+            .map(attr_key)
+            .collect();
         let mut want: Vec<String> = case.expect_attrs.iter().map(attr_key).collect();
         got.sort();
         want.sort();
         if got != want {
-            let missing: Vec<&api::Attribute> = case.expect_attrs.iter().filter(|a| !got.contains(&attr_key(a))).collect();
-            let extra: Vec<&api::Attribute> = lp.pattrs.iter().filter(|a| !is_nh(a) && !want.contains(&attr_key(a))).collect();
-            let which = missing.first().or(extra.first()).map(|a| api_attr_code(a)).unwrap_or_default();
+            let missing: Vec<&api::Attribute> = case
+                .expect_attrs
+                .iter()
+                .filter(|a| !got.contains(&attr_key(a)))
+                .collect();
+            let extra: Vec<&api::Attribute> = lp
+                .pattrs
+                .iter()
+                .filter(|a| !is_nh(a) && !want.contains(&attr_key(a)))
+                .collect();
+            let which = missing
+                .first()
+                .or(extra.first())
+                .map(|a| api_attr_code(a))
+                .unwrap_or_default();
             let kind = if !missing.is_empty() && extra.iter().any(|e| api_attr_code(e) == which) {
                 "changed"
             } else if !missing.is_empty() {
@@ -3977,7 +4906,13 @@ fn part_c_case(ctx: &mut Ctx, rt: &tokio::runtime::Runtime, svc: &GrpcService, c
     }
     // remove it again so that the next case starts from an empty table
     let del = guard(|| {
-        rt.block_on(async { svc.delete_path(tonic::Request::new(api::DeletePathRequest { uuid, ..Default::default() })).await })
+        rt.block_on(async {
+            svc.delete_path(tonic::Request::new(api::DeletePathRequest {
+                uuid,
+                ..Default::default()
+            }))
+            .await
+        })
     });
     match del {
         Ok(Ok(_)) => match guard(|| list_global(rt, svc, case.fam)) {
@@ -3992,10 +4927,14 @@ fn part_c_case(ctx: &mut Ctx, rt: &tokio::runtime::Runtime, svc: &GrpcService, c
 }
 
 fn run_part_c(ctx: &mut Ctx, r: &mut Rng, n: u64) {
-    let rt = match tokio::runtime::Builder::new_current_thread().enable_all().build() {
+    let rt = match tokio::runtime::Builder::new_current_thread()
+        .enable_all()
+        .build()
+    {
         Ok(rt) => rt,
         Err(e) => {
-            ctx.rep.inconclusive(&format!("cannot build a tokio runtime: {}", e));
+            ctx.rep
+                .inconclusive(&format!("cannot build a tokio runtime: {}", e));
             return;
         }
     };
@@ -4034,7 +4973,12 @@ fn run_part_c(ctx: &mut Ctx, r: &mut Rng, n: u64) {
 
 fn b_rd() -> Option<api::RouteDistinguisher> {
     Some(api::RouteDistinguisher {
-        rd: Some(api::route_distinguisher::Rd::TwoOctetAsn(api::RouteDistinguisherTwoOctetAsn { admin: 65000, assigned: 1 })),
+        rd: Some(api::route_distinguisher::Rd::TwoOctetAsn(
+            api::RouteDistinguisherTwoOctetAsn {
+                admin: 65000,
+                assigned: 1,
+            },
+        )),
     })
 }
 
@@ -4063,19 +5007,31 @@ fn b_labels(n: u32) -> Vec<u32> {
 fn b_flowspec_rules(body_len: usize) -> Vec<api::FlowSpecRule> {
     // one Port component: 1 type octet + operators of 2 octets (value <= 0xff) or 3 (value <= 0xffff)
     let payload = body_len.saturating_sub(1);
-    let (n2, n3) = if payload % 2 == 0 { (payload / 2, 0) } else { (payload.saturating_sub(3) / 2, 1) };
+    let (n2, n3) = if payload % 2 == 0 {
+        (payload / 2, 0)
+    } else {
+        (payload.saturating_sub(3) / 2, 1)
+    };
     let mut items: Vec<api::FlowSpecComponentItem> = Vec::new();
     for _ in 0..n3 {
-        items.push(api::FlowSpecComponentItem { op: 0x01, value: 1000 });
+        items.push(api::FlowSpecComponentItem {
+            op: 0x01,
+            value: 1000,
+        });
     }
     for i in 0..n2 {
-        items.push(api::FlowSpecComponentItem { op: 0x01, value: (i % 200) as u64 });
+        items.push(api::FlowSpecComponentItem {
+            op: 0x01,
+            value: (i % 200) as u64,
+        });
     }
     if let Some(l) = items.last_mut() {
         l.op |= 0x80;
     }
     vec![api::FlowSpecRule {
-        rule: Some(api::flow_spec_rule::Rule::Component(api::FlowSpecComponent { r#type: 4, items })),
+        rule: Some(api::flow_spec_rule::Rule::Component(
+            api::FlowSpecComponent { r#type: 4, items },
+        )),
     }]
 }
 
@@ -4106,7 +5062,15 @@ fn boundary_api_nlris() -> Vec<(api::Nlri, Family, String)> {
         // depth 1..=11 with the shortest / longest / just-too-long prefix
         for l in 1..=11u32 {
             for len in [0, maxlen - 1, maxlen, maxlen + 1] {
-                combos.push((l, len, if len > maxlen { "len>max".into() } else { "grid".into() }));
+                combos.push((
+                    l,
+                    len,
+                    if len > maxlen {
+                        "len>max".into()
+                    } else {
+                        "grid".into()
+                    },
+                ));
             }
         }
         combos.push((0, maxlen, "no-label".into()));
@@ -4126,19 +5090,38 @@ fn boundary_api_nlris() -> Vec<(api::Nlri, Family, String)> {
                     prefix: b_addr(v6, len.min(maxlen)),
                 })
             };
-            out.push((api::Nlri { nlri: Some(m) }, fam, format!("{}:{}", kind, tag)));
+            out.push((
+                api::Nlri { nlri: Some(m) },
+                fam,
+                format!("{}:{}", kind, tag),
+            ));
         }
     }
     // plain prefixes
-    for (fam, v6) in [(Family::IPV4, false), (Family::IPV6, true), (Family::IPV4_MC, false), (Family::IPV6_MC, true)] {
+    for (fam, v6) in [
+        (Family::IPV4, false),
+        (Family::IPV6, true),
+        (Family::IPV4_MC, false),
+        (Family::IPV6_MC, true),
+    ] {
         let maxlen: u32 = if v6 { 128 } else { 32 };
         for len in [0, maxlen - 1, maxlen, maxlen + 1, 255, 256] {
             out.push((
                 api::Nlri {
-                    nlri: Some(N::Prefix(api::IpAddressPrefix { prefix_len: len, prefix: b_addr(v6, len.min(maxlen)) })),
+                    nlri: Some(N::Prefix(api::IpAddressPrefix {
+                        prefix_len: len,
+                        prefix: b_addr(v6, len.min(maxlen)),
+                    })),
                 },
                 fam,
-                format!("prefix:len={}", if len > maxlen { "over".to_string() } else { "in".to_string() }),
+                format!(
+                    "prefix:len={}",
+                    if len > maxlen {
+                        "over".to_string()
+                    } else {
+                        "in".to_string()
+                    }
+                ),
             ));
         }
     }
@@ -4149,7 +5132,9 @@ fn boundary_api_nlris() -> Vec<(api::Nlri, Family, String)> {
         ("fsvpn4", Family::IPV4_FLOWSPEC_VPN, true),
         ("fsvpn6", Family::IPV6_FLOWSPEC_VPN, true),
     ] {
-        for t in [237usize, 238, 239, 240, 241, 242, 243, 4092, 4093, 4094, 4095, 4096, 4097, 4098, 4200] {
+        for t in [
+            237usize, 238, 239, 240, 241, 242, 243, 4092, 4093, 4094, 4095, 4096, 4097, 4098, 4200,
+        ] {
             // for the VPN flavours the RD (8 octets) is part of the NLRI body
             let body = if vpn { t.saturating_sub(8) } else { t };
             let rules = b_flowspec_rules(body);
@@ -4158,12 +5143,25 @@ fn boundary_api_nlris() -> Vec<(api::Nlri, Family, String)> {
             } else {
                 N::FlowSpec(api::FlowSpecNlri { rules })
             };
-            out.push((api::Nlri { nlri: Some(m) }, fam, format!("{}:len={}", kind, t)));
+            out.push((
+                api::Nlri { nlri: Some(m) },
+                fam,
+                format!("{}:len={}", kind, t),
+            ));
         }
     }
     // EVPN: longest routes and field limits
-    let esi = || Some(api::EthernetSegmentIdentifier { r#type: 0, value: vec![1, 2, 3, 4, 5, 6, 7, 8, 9] });
-    for (l1, l2, tag) in [(0x00ff_ffffu32, 0x00ff_ffffu32, "label=max"), (0x0100_0000, 5, "label=over"), (5, 0x0100_0000, "label=over")] {
+    let esi = || {
+        Some(api::EthernetSegmentIdentifier {
+            r#type: 0,
+            value: vec![1, 2, 3, 4, 5, 6, 7, 8, 9],
+        })
+    };
+    for (l1, l2, tag) in [
+        (0x00ff_ffffu32, 0x00ff_ffffu32, "label=max"),
+        (0x0100_0000, 5, "label=over"),
+        (5, 0x0100_0000, "label=over"),
+    ] {
         for ip in ["", "192.0.2.1", "2001:db8::1"] {
             out.push((
                 api::Nlri {
@@ -4181,7 +5179,15 @@ fn boundary_api_nlris() -> Vec<(api::Nlri, Family, String)> {
             ));
         }
     }
-    for (v6, len) in [(false, 0u32), (false, 32), (false, 33), (true, 128), (true, 129), (true, 255), (false, 128)] {
+    for (v6, len) in [
+        (false, 0u32),
+        (false, 32),
+        (false, 33),
+        (true, 128),
+        (true, 129),
+        (true, 255),
+        (false, 128),
+    ] {
         let maxlen = if v6 { 128 } else { 32 };
         out.push((
             api::Nlri {
@@ -4191,21 +5197,40 @@ fn boundary_api_nlris() -> Vec<(api::Nlri, Family, String)> {
                     ethernet_tag: u32::MAX,
                     ip_prefix: b_addr(v6, 128),
                     ip_prefix_len: len,
-                    gw_address: if v6 { "2001:db8::fe".into() } else { "192.0.2.254".into() },
+                    gw_address: if v6 {
+                        "2001:db8::fe".into()
+                    } else {
+                        "192.0.2.254".into()
+                    },
                     label: 0x00ff_ffff,
                 })),
             },
             Family::L2VPN_EVPN,
-            format!("evpn:type5-len={}", if len > maxlen { "over" } else { "in" }),
+            format!(
+                "evpn:type5-len={}",
+                if len > maxlen { "over" } else { "in" }
+            ),
         ));
     }
     for label in [0x00ff_ffffu32, 0x0100_0000] {
         out.push((
             api::Nlri {
-                nlri: Some(N::EvpnEthernetAd(api::EvpnEthernetAutoDiscoveryRoute { rd: b_rd(), esi: esi(), ethernet_tag: u32::MAX, label })),
+                nlri: Some(N::EvpnEthernetAd(api::EvpnEthernetAutoDiscoveryRoute {
+                    rd: b_rd(),
+                    esi: esi(),
+                    ethernet_tag: u32::MAX,
+                    label,
+                })),
             },
             Family::L2VPN_EVPN,
-            format!("evpn:{}", if label > 0x00ff_ffff { "label=over" } else { "label=max" }),
+            format!(
+                "evpn:{}",
+                if label > 0x00ff_ffff {
+                    "label=over"
+                } else {
+                    "label=max"
+                }
+            ),
         ));
     }
     // MUP: prefix lengths and the T2ST endpoint length (address + 0..=32 TEID bits)
@@ -4213,13 +5238,18 @@ fn boundary_api_nlris() -> Vec<(api::Nlri, Family, String)> {
         let maxlen: u32 = if v6 { 128 } else { 32 };
         let ep = if v6 { "2001:db8::2" } else { "192.0.2.2" };
         for len in [0, maxlen - 1, maxlen, maxlen + 1, 255] {
-            let tag = format!("mup:prefix-len={}", if len > maxlen { "over" } else { "in" });
+            let tag = format!(
+                "mup:prefix-len={}",
+                if len > maxlen { "over" } else { "in" }
+            );
             out.push((
                 api::Nlri {
-                    nlri: Some(N::MupInterworkSegmentDiscovery(api::MupInterworkSegmentDiscoveryRoute {
-                        rd: b_rd(),
-                        prefix: format!("{}/{}", b_addr(v6, len.min(maxlen)), len),
-                    })),
+                    nlri: Some(N::MupInterworkSegmentDiscovery(
+                        api::MupInterworkSegmentDiscoveryRoute {
+                            rd: b_rd(),
+                            prefix: format!("{}/{}", b_addr(v6, len.min(maxlen)), len),
+                        },
+                    )),
                 },
                 fam,
                 tag.clone(),
@@ -4227,32 +5257,43 @@ fn boundary_api_nlris() -> Vec<(api::Nlri, Family, String)> {
             #[allow(deprecated)]
             out.push((
                 api::Nlri {
-                    nlri: Some(N::MupType1SessionTransformed(api::MupType1SessionTransformedRoute {
-                        rd: b_rd(),
-                        prefix_length: 0,
-                        prefix: format!("{}/{}", b_addr(v6, len.min(maxlen)), len),
-                        teid: u32::MAX,
-                        qfi: 255,
-                        endpoint_address_length: maxlen,
-                        endpoint_address: ep.into(),
-                        source_address_length: maxlen,
-                        source_address: ep.into(),
-                    })),
+                    nlri: Some(N::MupType1SessionTransformed(
+                        api::MupType1SessionTransformedRoute {
+                            rd: b_rd(),
+                            prefix_length: 0,
+                            prefix: format!("{}/{}", b_addr(v6, len.min(maxlen)), len),
+                            teid: u32::MAX,
+                            qfi: 255,
+                            endpoint_address_length: maxlen,
+                            endpoint_address: ep.into(),
+                            source_address_length: maxlen,
+                            source_address: ep.into(),
+                        },
+                    )),
                 },
                 fam,
                 tag,
             ));
         }
         for extra in [0u32, 8, 24, 31, 32, 33, 64] {
-            let (len, teid) = (maxlen + extra, if extra == 0 { 0 } else { u32::MAX << (32 - 8 * extra.min(32).div_ceil(8)) });
+            let (len, teid) = (
+                maxlen + extra,
+                if extra == 0 {
+                    0
+                } else {
+                    u32::MAX << (32 - 8 * extra.min(32).div_ceil(8))
+                },
+            );
             out.push((
                 api::Nlri {
-                    nlri: Some(N::MupType2SessionTransformed(api::MupType2SessionTransformedRoute {
-                        rd: b_rd(),
-                        endpoint_address_length: len,
-                        endpoint_address: ep.into(),
-                        teid,
-                    })),
+                    nlri: Some(N::MupType2SessionTransformed(
+                        api::MupType2SessionTransformedRoute {
+                            rd: b_rd(),
+                            endpoint_address_length: len,
+                            endpoint_address: ep.into(),
+                            teid,
+                        },
+                    )),
                 },
                 fam,
                 format!("mup:t2st-len={}", if extra > 32 { "over" } else { "in" }),
@@ -4260,12 +5301,14 @@ fn boundary_api_nlris() -> Vec<(api::Nlri, Family, String)> {
         }
         out.push((
             api::Nlri {
-                nlri: Some(N::MupType2SessionTransformed(api::MupType2SessionTransformedRoute {
-                    rd: b_rd(),
-                    endpoint_address_length: maxlen - 1,
-                    endpoint_address: ep.into(),
-                    teid: 0,
-                })),
+                nlri: Some(N::MupType2SessionTransformed(
+                    api::MupType2SessionTransformedRoute {
+                        rd: b_rd(),
+                        endpoint_address_length: maxlen - 1,
+                        endpoint_address: ep.into(),
+                        teid: 0,
+                    },
+                )),
             },
             fam,
             "mup:t2st-len=under".into(),
@@ -4277,7 +5320,10 @@ fn boundary_api_nlris() -> Vec<(api::Nlri, Family, String)> {
 fn run_part_b_boundary(ctx: &mut Ctx) {
     for (m, fam, tag) in boundary_api_nlris() {
         ctx.rep.count(&format!("b:boundary-in:{}", tag));
-        ctx.rep.count(&format!("b:boundary-in-kind:{}", tag.split(':').next().unwrap_or("")));
+        ctx.rep.count(&format!(
+            "b:boundary-in-kind:{}",
+            tag.split(':').next().unwrap_or("")
+        ));
         part_b_nlri(ctx, m, fam, &format!("boundary/{}", tag));
     }
 }
@@ -4294,19 +5340,39 @@ fn run_part_c_boundary(ctx: &mut Ctx, rt: &tokio::runtime::Runtime) {
         if fam == Family::IPV4 {
             pattrs.push(api_next_hop("192.0.2.1"));
         } else if !is_flowspec(fam) {
-            pattrs.push(api_mp_reach(Some(fam), vec![if is_v6_family(fam) { "2001:db8::1".into() } else { "192.0.2.1".into() }]));
+            pattrs.push(api_mp_reach(
+                Some(fam),
+                vec![if is_v6_family(fam) {
+                    "2001:db8::1".into()
+                } else {
+                    "192.0.2.1".into()
+                }],
+            ));
         }
-        let path = api::Path { nlri: Some(m.clone()), pattrs, family: Some(family_to_api(fam)), ..Default::default() };
+        let path = api::Path {
+            nlri: Some(m.clone()),
+            pattrs,
+            family: Some(family_to_api(fam)),
+            ..Default::default()
+        };
         let desc = trunc(format!("{:?}", path));
         let wit = |extra: Vec<(&str, Json)>| {
-            let mut v = vec![("family", Json::s(fname.clone())), ("limit_case", Json::s(tag.clone())), ("submitted", Json::s(desc.clone()))];
+            let mut v = vec![
+                ("family", Json::s(fname.clone())),
+                ("limit_case", Json::s(tag.clone())),
+                ("submitted", Json::s(desc.clone())),
+            ];
             v.extend(extra);
             Json::obj(v)
         };
         let added = guard(|| {
             rt.block_on(async {
-                svc.add_path(tonic::Request::new(api::AddPathRequest { table_type: api::TableType::Global as i32, vrf_id: String::new(), path: Some(path) }))
-                    .await
+                svc.add_path(tonic::Request::new(api::AddPathRequest {
+                    table_type: api::TableType::Global as i32,
+                    vrf_id: String::new(),
+                    path: Some(path),
+                }))
+                .await
             })
         });
         let uuid = match added {
@@ -4332,7 +5398,10 @@ fn run_part_c_boundary(ctx: &mut Ctx, rt: &tokio::runtime::Runtime) {
         if let Some(n) = &internal {
             for (rule, detail) in validate_nlri(fam, n) {
                 ctx.rep.violation(
-                    &format!("C17/store-show/{}/unrepresentable-nlri-stored/{}", fname, rule),
+                    &format!(
+                        "C17/store-show/{}/unrepresentable-nlri-stored/{}",
+                        fname, rule
+                    ),
                     &format!("add_path stores an NLRI the wire cannot carry: {}", detail),
                     wit(vec![("stored_as", Json::s(nlri_dbg(n)))]),
                 );
@@ -4347,7 +5416,11 @@ fn run_part_c_boundary(ctx: &mut Ctx, rt: &tokio::runtime::Runtime) {
                 continue;
             }
             Ok(Err(e)) => {
-                ctx.rep.violation(&format!("C17/store-show/{}/list-error", fname), &e, wit(vec![]));
+                ctx.rep.violation(
+                    &format!("C17/store-show/{}/list-error", fname),
+                    &e,
+                    wit(vec![]),
+                );
                 ok = false;
             }
             Ok(Ok(l)) => {
@@ -4355,7 +5428,10 @@ fn run_part_c_boundary(ctx: &mut Ctx, rt: &tokio::runtime::Runtime) {
                 if paths.len() != 1 {
                     ctx.rep.violation(
                         &format!("C17/store-show/{}/path-count", fname),
-                        &format!("after one add_path on an empty table list_path shows {} paths", paths.len()),
+                        &format!(
+                            "after one add_path on an empty table list_path shows {} paths",
+                            paths.len()
+                        ),
                         wit(vec![]),
                     );
                     ok = false;
@@ -4370,22 +5446,45 @@ fn run_part_c_boundary(ctx: &mut Ctx, rt: &tokio::runtime::Runtime) {
                     }
                     // nlri_binary is the wire form: the decoder must give the stored value back
                     if let Some(n) = &internal {
-                        let msg = build_update(fam, &Nh::None, &lp.nlri_binary, &base_wattrs(&mut Rng::new(1)));
+                        let msg = build_update(
+                            fam,
+                            &Nh::None,
+                            &lp.nlri_binary,
+                            &base_wattrs(&mut Rng::new(1)),
+                        );
                         let msg = if fam == Family::IPV4 {
-                            build_update(fam, &Nh::V4(Ipv4Addr::new(192, 0, 2, 1)), &lp.nlri_binary, &base_wattrs(&mut Rng::new(1)))
+                            build_update(
+                                fam,
+                                &Nh::V4(Ipv4Addr::new(192, 0, 2, 1)),
+                                &lp.nlri_binary,
+                                &base_wattrs(&mut Rng::new(1)),
+                            )
                         } else if is_flowspec(fam) {
                             msg
                         } else {
-                            build_update(fam, &Nh::V6("2001:db8::1".parse().unwrap()), &lp.nlri_binary, &base_wattrs(&mut Rng::new(1)))
+                            build_update(
+                                fam,
+                                &Nh::V6("2001:db8::1".parse().unwrap()),
+                                &lp.nlri_binary,
+                                &base_wattrs(&mut Rng::new(1)),
+                            )
                         };
                         let mut c = new_codec(false);
                         match decode_update(&mut c, &msg) {
-                            Ok(d) if d.n_err == 0 && d.entries.len() == 1 && &d.entries[0].nlri == n => {
+                            Ok(d)
+                                if d.n_err == 0
+                                    && d.entries.len() == 1
+                                    && &d.entries[0].nlri == n =>
+                            {
                                 ctx.rep.count("c:boundary:nlri-binary-decodes-equal");
                             }
                             other => {
                                 let why = match other {
-                                    Ok(d) => format!("decodes to {} entries / {:?}", d.entries.len(), d.entries.first().map(|e| nlri_dbg(&e.nlri))),
+                                    Ok(d) => format!(
+                                        "decodes to {} entries / {:?}",
+                                        d.entries.len(),
+                                        d.entries.first().map(|e| nlri_dbg(&e.nlri))
+                                    ),
                                     Err(e) => e,
                                 };
                                 ctx.rep.violation(
@@ -4399,7 +5498,15 @@ fn run_part_c_boundary(ctx: &mut Ctx, rt: &tokio::runtime::Runtime) {
                 }
             }
         }
-        let del = guard(|| rt.block_on(async { svc.delete_path(tonic::Request::new(api::DeletePathRequest { uuid, ..Default::default() })).await }));
+        let del = guard(|| {
+            rt.block_on(async {
+                svc.delete_path(tonic::Request::new(api::DeletePathRequest {
+                    uuid,
+                    ..Default::default()
+                }))
+                .await
+            })
+        });
         if !ok || !matches!(del, Ok(Ok(_))) {
             svc = make_service();
         }
